@@ -1,5 +1,27 @@
-(* MddSim.v — semantic theorems about Mdd.compile (clean flavours): C06, C07, C08 (iii)/(iv).
-   Part 1: semantics of feasible runs ([frun]) versus the Bellman value [H]. *)
+(* MddSim.v — semantic theorems about Mdd.compile for the clean flavours (CleanLEL, CleanFC):
+   C06 (a relaxed diagram is a valid upper bound and claims exactness truthfully), C07 (declared-exact /
+   exact-mode diagrams give the optimum), C08 (iii) (cut-set upper bounds are valid) and (iv) (the cut-set
+   covers what remains).  Everything is Qed; no axiom (see the Print Assumptions at the end).
+
+   Setting (Section Sim): inp with a clean flavour, no cache, no dominance rule, no cutoff, width >= 1,
+   sp_depth root <= N, static variable order (nv_static / nv_some / nv_none), a well-formed model
+   (cov: cov_refl, cov_sim, merge_cov, relax_ge, rub_adm) and ONE arithmetic guard stated on the MODEL
+   only: every feasible partial run from the root has a value in [-B, B] with 2B <= IMAX (Hguard; see
+   frun_bounded / frun_length for how bounded transition costs discharge it).  Nothing is assumed about the
+   values stored in the diagram: relaxed values may saturate, the proofs only use clampZ_mono.
+
+   Main definitions
+     frun pb k s v ds      feasible run: decision j is on the variable of depth k+j and in the domain
+     vstar                 oadd (sp_value root) (H pb (sp_depth root) (sp_state root))  (= opt_enum_from, vstar_opt_enum)
+     dpath m i c sc ds t s'  a path of arcs of m from node c (layer i) to node t following the true run ds
+                           from state sc: each arc carries the decision, costs at least the true cost, and
+                           its target covers the true state
+     Einv / Ninv           arc-level and node-level invariants of a diagram under compilation
+     Linv / Post           invariant of the layer loop and what it yields at LoopDone: tracking of every
+                           promising completion from the root (Tinv) and from every expanded node (UTinv)
+   Main theorems
+     S1_relaxed_upper_bound, S2_exact_truthful, S2_exact_mode, S3_cutset_ub, S4_cutset_covers
+     K2_holds, K3_ub_holds, K4_holds (+ K4_ub_holds)   the contracts of SolverProofs.v *)
 Require Import DDO.Base DDO.Fringe DDO.DP DDO.Cache DDO.Dom DDO.Mdd DDO.Viz DDO.MddStruct DDO.MddExact.
 Local Open Scope Z_scope.
 
@@ -206,6 +228,65 @@ Section Sem.
     - inversion H; reflexivity.
     - destruct (var_ok k d && in_domain pb s d); [|discriminate]. eapply IH; eauto.
   Qed.
+
+  (* how the arithmetic guard of Section Sim is discharged: with transition costs bounded by C, every
+     feasible run of r decisions from value v stays within v -+ C * r (and r <= N - k) *)
+  Lemma frun_bounded C :
+    (forall s d, - C <= transition_cost pb s (transition pb s d) d <= C) ->
+    forall ds k s v s' v', frun k s v ds = Some (s', v') ->
+    v - C * Z.of_nat (length ds) <= v' <= v + C * Z.of_nat (length ds).
+  Proof.
+    intros HC. induction ds as [|d ds IH]; intros k s v s' v' H; simpl in H.
+    - inversion H; subst. simpl. lia.
+    - destruct (var_ok k d && in_domain pb s d); [|discriminate].
+      specialize (IH _ _ _ _ _ H). specialize (HC s d).
+      change (length (d :: ds)) with (S (length ds)). rewrite Nat2Z.inj_succ. nia.
+  Qed.
+
+  Lemma frun_length ds : forall k s v r, frun k s v ds = Some r -> (k <= N -> k + length ds <= N)%nat.
+  Proof.
+    induction ds as [|d ds IH]; intros k s v r Hr Hk; simpl in *; [lia|].
+    destruct (var_ok k d) eqn:Ev; simpl in Hr; [|discriminate].
+    destruct (in_domain pb s d); [|discriminate].
+    assert (Hlt : (k < N)%nat).
+    { destruct (Nat.lt_ge_cases k N) as [H1|H1]; [exact H1|].
+      unfold var_ok in Ev. rewrite nv_none in Ev by exact H1. discriminate. }
+    specialize (IH (S k) _ _ r Hr Hlt). lia.
+  Qed.
+
+  (* the exhaustive enumeration of DP.v computes the same optimum as the Bellman recursion *)
+  Lemma zmax_list_app l1 l2 : zmax_list (l1 ++ l2) = omax (zmax_list l1) (zmax_list l2).
+  Proof.
+    induction l1 as [|x l1 IH]; simpl; [destruct (zmax_list l2); reflexivity|].
+    rewrite IH. destruct (zmax_list l1) as [a|]; destruct (zmax_list l2) as [b|]; simpl; auto.
+    f_equal. lia.
+  Qed.
+
+  Lemma enum_hstar fuel : forall k s v,
+    zmax_list (map snd (enum_from pb fuel k s v)) = oadd v (hstar pb fuel k s).
+  Proof.
+    induction fuel as [|fuel IH]; intros k s v; simpl.
+    - f_equal. lia.
+    - destruct (next_variable pb k [s]) as [x|]; [|simpl; f_equal; lia].
+      induction (domain pb x s) as [|val dom IHd]; simpl; [reflexivity|].
+      rewrite map_app, zmax_list_app, IHd. unfold step.
+      rewrite map_map.
+      assert (E : map (fun p : list decision * Z => snd (let '(ds, w) := p in ({| d_var := x; d_val := val |} :: ds, w)))
+                    (enum_from pb fuel (S k) (transition pb s {| d_var := x; d_val := val |})
+                       (v + transition_cost pb s (transition pb s {| d_var := x; d_val := val |}) {| d_var := x; d_val := val |}))
+                = map snd (enum_from pb fuel (S k) (transition pb s {| d_var := x; d_val := val |})
+                       (v + transition_cost pb s (transition pb s {| d_var := x; d_val := val |}) {| d_var := x; d_val := val |}))).
+      { apply map_ext. intros [ds w]. reflexivity. }
+      rewrite E, IH.
+      destruct (hstar pb fuel (S k) (transition pb s {| d_var := x; d_val := val |})) as [h|]; simpl.
+      + match goal with |- context [fold_right ?f None dom] => destruct (fold_right f None dom) as [a|] end; simpl.
+        * f_equal. lia.
+        * f_equal. lia.
+      + match goal with |- context [fold_right ?f None dom] => destruct (fold_right f None dom) as [a|] end; reflexivity.
+  Qed.
+
+  Lemma opt_enum_from_H k s v : opt_enum_from pb k s v = oadd v (H pb k s).
+  Proof. unfold opt_enum_from, H. apply enum_hstar. Qed.
 
   Lemma frun_snoc k s v ds d s1 v1 :
     frun k s v ds = Some (s1, v1) ->
@@ -815,26 +896,26 @@ Section Sim.
     apply (guard_isize (ds ++ ds2) s2). rewrite frun_app, Hr. exact Hr2.
   Qed.
 
-  Lemma expand_node_track var (m : mdd) u ds s' v' dval h :
+  Lemma expand_node_track var (m : mdd) i0 c0 sc0 vc0 u ds s' v' dval h :
     let d := {| d_var := var; d_val := dval |} in
     let dn := S (n_depth (gn m u)) in
     Cinv dn m -> u < m_layer_end m ->
     (exists states, next_variable pb (n_depth (gn m u)) states = Some var) ->
-    (rv <= n_vtop (gn m 0))%Z ->
-    In u (nth (length ds) (m_layers m) []) ->
-    dpath m 0 0 rs ds u s' -> frn rd rs rv ds = Some (s', v') -> rd + length ds <= N ->
+    (vc0 <= n_vtop (gn m c0))%Z ->
+    (forall ds1 s1 v1, frn (rd + i0) sc0 vc0 ds1 = Some (s1, v1) -> in_isize v1) ->
+    In u (nth (i0 + length ds) (m_layers m) []) ->
+    dpath m i0 c0 sc0 ds u s' -> frn (rd + i0) sc0 vc0 ds = Some (s', v') ->
     In dval (domain pb var s') ->
-    H pb (rd + length ds) s' = Some h -> (lb < v' + h)%Z ->
+    H pb (rd + i0 + length ds) s' = Some h -> (lb < v' + h)%Z -> in_isize (v' + h) ->
     let m' := expand_node st_eqb inp var m u in
-    exists t', In t' (m_next m') /\ dpath m' 0 0 rs (ds ++ [d]) t' (transition pb s' d).
+    exists t', In t' (m_next m') /\ dpath m' i0 c0 sc0 (ds ++ [d]) t' (transition pb s' d).
   Proof.
-    intros d dn HC Hu Hvar Hroot Hlay Hp Hr Hle Hdv Hh Hprom. cbv zeta.
+    intros d dn HC Hu Hvar Hroot Hisoall Hlay Hp Hr Hdv Hh Hprom Hiso. cbv zeta.
     pose proof (dpath_range _ _ _ _ _ _ _ Hp) as Hulen.
     pose proof (dpath_cov _ _ _ _ _ _ _ Hp) as Hcov.
     destruct HC as (HD & HX & Hnd & HE).
-    pose proof (dpath_vtop m ds u s' HE Hp Hroot _ _ Hr) as Hvt.
+    pose proof (dpath_vtop_gen m i0 c0 sc0 ds u s' (rd + i0) vc0 HE Hp Hroot Hisoall _ _ Hr) as Hvt.
     pose proof (rub_adm _ _ _ _ Hcov Hh) as Hrub.
-    pose proof (prefix_isize _ _ _ _ Hr Hle Hh) as Hiso.
     unfold expand_node. cbv zeta.
     set (state := n_state (gn m u)) in *.
     set (m1 := upd_node m u (fun n => set_rub n (fast_upper_bound (ci_relax inp) state))).
@@ -851,7 +932,7 @@ Section Sim.
     { apply (gr_trans m m1 m2); [unfold m1; apply gr_upd_node; intros; reflexivity|apply gr_add_log]. }
     destruct (cov_sim _ _ var dval Hcov Hdv) as (Sd & Scov & Scost). fold d in Scov, Scost.
     set (Inv := fun a : mdd => Cinv dn a /\ stable inp m a /\ gr m a).
-    set (P := fun a : mdd => exists t', In t' (m_next a) /\ dpath a 0 0 rs (ds ++ [d]) t' (transition pb s' d)).
+    set (P := fun a : mdd => exists t', In t' (m_next a) /\ dpath a i0 c0 sc0 (ds ++ [d]) t' (transition pb s' d)).
     assert (Hstep : forall a val, In val (domain pb var state) -> Inv a ->
               Inv (branch_on st_eqb inp a u {| d_var := var; d_val := val |})).
     { intros a val Hval (Ca & Sa & Ga).
@@ -889,7 +970,7 @@ Section Sim.
             assert (Gab : gr a b) by apply gr_branch_on.
             assert (Gmb : gr m b) by (eapply gr_trans; eauto).
             exists t. split; [exact T1|].
-            apply (dp_snoc b 0 0 rs ds u s' d (length (m_edges a)) t).
+            apply (dp_snoc b i0 c0 sc0 ds u s' d (length (m_edges a)) t).
             -- eapply dpath_gr; eauto.
             -- rewrite (gr_layers _ _ Gmb). exact Hlay.
             -- exact T2.
@@ -975,19 +1056,21 @@ Section Sim.
         eapply gr_trans; [exact Ga|apply gr_expand_node].
   Qed.
 
-  Lemma expand_layer_track var l dd (m : mdd) u ds s' v' dval h :
+  Lemma expand_layer_track var l dd (m : mdd) i0 c0 sc0 vc0 u ds s' v' dval h :
     let d := {| d_var := var; d_val := dval |} in
     Cinv (S dd) m -> (forall id, In id l -> id < m_layer_end m /\ n_depth (gn m id) = dd) ->
     (exists states, next_variable pb dd states = Some var) ->
-    In u l -> In u (nth (length ds) (m_layers m) []) ->
-    dpath m 0 0 rs ds u s' -> frn rd rs rv ds = Some (s', v') -> rd + length ds <= N ->
+    c0 < m_layer_end m -> (vc0 <= n_vtop (gn m c0))%Z ->
+    (forall ds1 s1 v1, frn (rd + i0) sc0 vc0 ds1 = Some (s1, v1) -> in_isize v1) ->
+    In u l -> In u (nth (i0 + length ds) (m_layers m) []) ->
+    dpath m i0 c0 sc0 ds u s' -> frn (rd + i0) sc0 vc0 ds = Some (s', v') ->
     In dval (domain pb var s') ->
-    H pb (rd + length ds) s' = Some h -> (lb < v' + h)%Z ->
+    H pb (rd + i0 + length ds) s' = Some h -> (lb < v' + h)%Z -> in_isize (v' + h) ->
     let m' := fold_left (expand_node st_eqb inp var) l m in
-    exists t', In t' (m_next m') /\ dpath m' 0 0 rs (ds ++ [d]) t' (transition pb s' d).
+    exists t', In t' (m_next m') /\ dpath m' i0 c0 sc0 (ds ++ [d]) t' (transition pb s' d).
   Proof.
-    intros d HC Hl Hv Hu Hlay Hp Hr Hle Hdv Hh Hprom. cbv zeta.
-    set (P := fun a : mdd => exists t', In t' (m_next a) /\ dpath a 0 0 rs (ds ++ [d]) t' (transition pb s' d)).
+    intros d HC Hl Hv Hc0 Hvc0 Hisoall Hu Hlay Hp Hr Hdv Hh Hprom Hiso. cbv zeta.
+    set (P := fun a : mdd => exists t', In t' (m_next a) /\ dpath a i0 c0 sc0 (ds ++ [d]) t' (transition pb s' d)).
     assert (G : forall l0 a, incl l0 l -> Cinv (S dd) a -> stable inp m a -> gr m a ->
               (In u l0 \/ P a) -> P (fold_left (expand_node st_eqb inp var) l0 a)).
     { induction l0 as [|id l0 IH]; intros a Hincl Ca Sa Ga Hor; simpl.
@@ -1011,10 +1094,10 @@ Section Sim.
         + eapply gr_trans; eauto.
         + destruct Hor as [[->|Hin]|(t' & Ht' & Hp')].
           * right. destruct (Hda u Hu) as [Hdu Hltu].
-            apply (expand_node_track var a u ds s' v' dval h); auto.
+            apply (expand_node_track var a i0 c0 sc0 vc0 u ds s' v' dval h); auto.
             -- rewrite Hdu. exact Ca.
             -- rewrite Hdu. exact Hv.
-            -- apply root_vtop. apply Ca.
+            -- destruct (s3 c0 Hc0) as (_ & q2 & _). rewrite <- q2. exact Hvc0.
             -- rewrite (gr_layers _ _ Ga). exact Hlay.
             -- eapply dpath_gr; eauto.
           * left; exact Hin.
@@ -1081,13 +1164,13 @@ Section Sim.
       + eapply gr_trans; [exact Ga|apply gr_redirect_step].
   Qed.
 
-  Lemma redirect_step_track merged mid (b : mdd) eid0 ds0 t s0 d0 :
+  Lemma redirect_step_track merged mid (b : mdd) i0 c0 sc0 eid0 ds0 t s0 d0 :
     mid < length (m_nodes b) -> eid0 < length (m_edges b) ->
-    dpath b 0 0 rs ds0 t s0 -> In t (nth (length ds0) (m_layers b) []) ->
+    dpath b i0 c0 sc0 ds0 t s0 -> In t (nth (i0 + length ds0) (m_layers b) []) ->
     e_from (get_edge b eid0) = t -> e_dec (get_edge b eid0) = d0 ->
     (transition_cost pb s0 (transition pb s0 d0) d0 <= e_cost (get_edge b eid0))%Z ->
     cov (n_state (gn b mid)) (transition pb s0 d0) ->
-    dpath (redirect_step inp merged mid b eid0) 0 0 rs (ds0 ++ [d0]) mid (transition pb s0 d0).
+    dpath (redirect_step inp merged mid b eid0) i0 c0 sc0 (ds0 ++ [d0]) mid (transition pb s0 d0).
   Proof.
     intros Hmid He Hp Hlay Hf Hd Hcost Hcov.
     pose proof (gr_redirect_step merged mid b eid0) as G.
@@ -1099,7 +1182,7 @@ Section Sim.
                                   merged (e_dec e) (e_cost e) rc)) e') by reflexivity.
     assert (Hedges : m_edges b' = m_edges b ++ [e']) by (rewrite Hb'; reflexivity).
     assert (Hnew : get_edge b' (length (m_edges b)) = e') by (apply (ge_snoc_new b b' e' Hedges)).
-    apply (dp_snoc b' 0 0 rs ds0 t s0 d0 (length (m_edges b)) mid).
+    apply (dp_snoc b' i0 c0 sc0 ds0 t s0 d0 (length (m_edges b)) mid).
     - eapply dpath_gr; eauto.
     - rewrite (gr_layers _ _ G). exact Hlay.
     - pose proof (gr_nodes _ _ G). lia.
@@ -1113,16 +1196,78 @@ Section Sim.
     - rewrite (gr_state _ _ mid G Hmid). exact Hcov.
   Qed.
 
+  (* the sources of the arcs *)
+  Definition Src (m : mdd) (c : nat) : Prop :=
+    exists eid, eid < length (m_edges m) /\ e_from (get_edge m eid) = c.
+  Definition srcs (m m' : mdd) : Prop := forall c, Src m' c -> Src m c.
+  Lemma srcs_refl m : srcs m m. Proof. intros c H; exact H. Qed.
+  Lemma srcs_trans a b c : srcs a b -> srcs b c -> srcs a c.
+  Proof. intros H1 H2 x Hx. apply H1, H2, Hx. Qed.
+  Lemma srcs_edges_eq (m m' : mdd) : m_edges m' = m_edges m -> srcs m m'.
+  Proof.
+    intros He c (eid & H1 & H2). exists eid. rewrite He in H1. rewrite (ge_edges_eq m m' eid He) in H2. auto.
+  Qed.
+  Lemma Src_gr m m' c : gr m m' -> Src m c -> Src m' c.
+  Proof.
+    intros G (eid & H1 & H2). exists eid. split; [pose proof (gr_edges_len _ _ G); lia|].
+    rewrite (gr_edge _ _ eid G H1). exact H2.
+  Qed.
+
+  Lemma srcs_redirect_step merged mid (a : mdd) eid :
+    eid < length (m_edges a) -> srcs a (redirect_step inp merged mid a eid).
+  Proof.
+    intros He c (x & H1 & H2). unfold redirect_step in H1, H2. cbv zeta in H1, H2.
+    match type of H1 with _ < length (m_edges (append_edge inp ?aa ?ee)) => set (a1 := aa) in *; set (e := ee) in * end.
+    assert (Hedges : m_edges (append_edge inp a1 e) = m_edges a ++ [e]) by reflexivity.
+    rewrite Hedges, app_length in H1. simpl in H1.
+    destruct (Nat.eq_dec x (length (m_edges a))) as [->|Hne].
+    - rewrite (ge_snoc_new a _ e Hedges) in H2. unfold e in H2. nsimpl_in H2. exists eid. auto.
+    - rewrite (ge_snoc_old a _ e x Hedges) in H2 by lia. exists x. split; [lia|exact H2].
+  Qed.
+
+  Lemma srcs_drop_step merged mid (b : mdd) did :
+    Rinv mid b -> did < length (m_nodes b) -> srcs b (drop_step inp merged mid b did).
+  Proof.
+    intros HR Hd. unfold drop_step. rewrite redirect_edges_fold.
+    set (b1 := upd_node b did (fun n => set_flags n (fl_set_deleted (n_flags n) true))).
+    assert (HR1 : Rinv mid b1) by (apply (Rinv_upd_flag mid b did (fun n => fl_set_deleted (n_flags n) true)); auto).
+    assert (Hd1 : did < length (m_nodes b1)) by (unfold b1; msimpl; rewrite upd_nth_length; exact Hd).
+    assert (Hall : forall eid, In eid (n_inb (gn b1 did)) -> eid < length (m_edges b1)).
+    { intros eid Hin. destruct HR1 as (HE1 & _). apply (E_inb _ HE1 did eid Hd1 Hin). }
+    assert (S01 : srcs b b1) by (apply srcs_edges_eq; reflexivity).
+    eapply srcs_trans; [exact S01|].
+    apply (fold_left_inv (fun a => gr b1 a /\ srcs b1 a)).
+    - split; [apply gr_refl|apply srcs_refl].
+    - intros a eid Hin (Ga & Sa). split.
+      + eapply gr_trans; [exact Ga|apply gr_redirect_step].
+      + eapply srcs_trans; [exact Sa|]. apply srcs_redirect_step.
+        pose proof (gr_edges_len _ _ Ga). specialize (Hall eid Hin). lia.
+  Qed.
+
+  Lemma srcs_drop_fold merged mid mrg (m2 : mdd) :
+    Rinv mid m2 -> (forall x, In x mrg -> x < length (m_nodes m2)) ->
+    srcs m2 (fold_left (drop_step inp merged mid) mrg m2).
+  Proof.
+    intros HR Hmrg.
+    apply (fold_left_inv (fun b => Rinv mid b /\ gr m2 b /\ srcs m2 b)).
+    - split; [exact HR|]. split; [apply gr_refl|apply srcs_refl].
+    - intros b x Hx (Rb & Gb & Sb).
+      assert (Hxb : x < length (m_nodes b)) by (pose proof (gr_nodes _ _ Gb); specialize (Hmrg x Hx); lia).
+      split; [apply Rinv_drop_step; auto|]. split.
+      + eapply gr_trans; [exact Gb|apply gr_drop_step].
+      + eapply srcs_trans; [exact Sb|apply srcs_drop_step; auto].
+  Qed.
+
   Lemma drop_fold_track merged mid mrg (m2 : mdd) :
     Rinv mid m2 -> (forall x, In x mrg -> x < length (m_nodes m2)) ->
     let m3 := fold_left (drop_step inp merged mid) mrg m2 in
     Rinv mid m3 /\ gr m2 m3 /\
-    forall u ds0 d0 t s0 eid0, In u mrg -> In eid0 (n_inb (gn m2 u)) ->
-      dpath m2 0 0 rs ds0 t s0 -> In t (nth (length ds0) (m_layers m2) []) ->
+    forall i0 c0 sc0 u ds0 d0 t s0 eid0, In u mrg -> In eid0 (n_inb (gn m2 u)) ->
+      dpath m2 i0 c0 sc0 ds0 t s0 -> In t (nth (i0 + length ds0) (m_layers m2) []) ->
       e_from (get_edge m2 eid0) = t -> e_dec (get_edge m2 eid0) = d0 ->
       (transition_cost pb s0 (transition pb s0 d0) d0 <= e_cost (get_edge m2 eid0))%Z ->
       cov (n_state (gn m2 mid)) (transition pb s0 d0) ->
-      dpath m3 0 0 rs (ds0 ++ [d0]) mid (transition pb s0 d0).
+      dpath m3 i0 c0 sc0 (ds0 ++ [d0]) mid (transition pb s0 d0).
   Proof.
     intros HR Hmrg. cbv zeta.
     assert (Hstep : forall b x, In x mrg -> Rinv mid b /\ gr m2 b ->
@@ -1135,12 +1280,12 @@ Section Sim.
     { apply (fold_left_inv (fun b => Rinv mid b /\ gr m2 b)); [split; [exact HR|apply gr_refl]|].
       intros b x Hx Hb. apply Hstep; assumption. }
     destruct Hall as [A1 A2]. split; [exact A1|]. split; [exact A2|].
-    intros u ds0 d0 t s0 eid0 Hu Hin Hp Hlay Hf Hd Hcost Hcov.
+    intros i0 c0 sc0 u ds0 d0 t s0 eid0 Hu Hin Hp Hlay Hf Hd Hcost Hcov.
     assert (Hmid2 : mid < length (m_nodes m2)) by apply HR.
     assert (Hu2 : u < length (m_nodes m2)) by (apply Hmrg; exact Hu).
     assert (He2 : eid0 < length (m_edges m2)).
     { destruct HR as (HE & _). apply (E_inb _ HE u eid0 Hu2 Hin). }
-    set (P := fun b : mdd => dpath b 0 0 rs (ds0 ++ [d0]) mid (transition pb s0 d0)).
+    set (P := fun b : mdd => dpath b i0 c0 sc0 (ds0 ++ [d0]) mid (transition pb s0 d0)).
     apply (fold_left_hit (fun b => Rinv mid b /\ gr m2 b) P (drop_step inp merged mid) mrg m2 u Hu).
     - split; [exact HR|apply gr_refl].
     - intros b y Hy Hb. apply Hstep; assumption.
@@ -1160,7 +1305,7 @@ Section Sim.
         * apply Rinv_redirect_step; [exact Rc|]. pose proof (gr_edges_len _ _ Gc). specialize (Hall1 y Hy). lia.
         * eapply gr_trans; [exact Gc|apply gr_redirect_step].
       + intros c (Rc & Gc). assert (G2c : gr m2 c) by (eapply gr_trans; eauto).
-        apply (redirect_step_track merged mid c eid0 ds0 t s0 d0).
+        apply (redirect_step_track merged mid c i0 c0 sc0 eid0 ds0 t s0 d0).
         * apply Rc.
         * pose proof (gr_edges_len _ _ G2c). lia.
         * eapply dpath_gr; eauto.
@@ -1193,9 +1338,10 @@ Section Sim.
   Lemma relax_layer_sim (m : mdd) l dd :
     Dinv inp m -> Einv m -> layer_ok inp m l dd -> ci_width inp < length l ->
     Einv (fst (relax_layer st_eqb inp m l)) /\ gr m (fst (relax_layer st_eqb inp m l)) /\
-    forall u ds s', In u l -> ds <> [] -> dpath m 0 0 rs ds u s' ->
+    srcs m (fst (relax_layer st_eqb inp m l)) /\
+    forall i0 c0 sc0 u ds s', In u l -> ds <> [] -> dpath m i0 c0 sc0 ds u s' ->
       exists u', In u' (snd (relax_layer st_eqb inp m l)) /\
-                 dpath (fst (relax_layer st_eqb inp m l)) 0 0 rs ds u' s'.
+                 dpath (fst (relax_layer st_eqb inp m l)) i0 c0 sc0 ds u' s'.
   Proof.
     intros HD HE Hl Hw.
     assert (Hex : exists w1, ci_width inp = S w1) by (exists (ci_width inp - 1); lia).
@@ -1228,15 +1374,17 @@ Section Sim.
     assert (Core : forall (m2 : mdd) mid, gr m m2 -> Rinv mid m2 -> n_state (gn m2 mid) = merged ->
               length (m_nodes m1) <= length (m_nodes m2) ->
               let m3 := fold_left (drop_step inp merged mid) mrg m2 in
-              Einv m3 /\ gr m m3 /\
-              forall u ds s', In u mrg -> ds <> [] -> dpath m 0 0 rs ds u s' -> dpath m3 0 0 rs ds mid s').
+              Einv m3 /\ gr m m3 /\ srcs m2 m3 /\
+              forall i0 c0 sc0 u ds s', In u mrg -> ds <> [] -> dpath m i0 c0 sc0 ds u s' -> dpath m3 i0 c0 sc0 ds mid s').
     { intros m2 mid G2 R2 Hst Hlen. cbv zeta.
-      destruct (drop_fold_track merged mid mrg m2 R2) as (T1 & T2 & T3).
+      assert (Hmrg2 : forall x, In x mrg -> x < length (m_nodes m2)).
       { intros x Hx. apply Hmrg in Hx. apply Hl1 in Hx. lia. }
+      destruct (drop_fold_track merged mid mrg m2 R2 Hmrg2) as (T1 & T2 & T3).
       split; [apply T1|]. split; [eapply gr_trans; eauto|].
-      intros u ds s' Hu Hne Hp.
+      split; [apply srcs_drop_fold; auto|].
+      intros i0 c0 sc0 u ds s' Hu Hne Hp.
       destruct (dpath_snoc_inv _ _ _ _ _ _ _ Hp Hne) as (ds0 & d0 & t & s0 & eid0 & -> & -> & P0 & P1 & P2 & P3 & P4 & P5 & P6 & P7 & P8).
-      apply (T3 u ds0 d0 t s0 eid0 Hu).
+      apply (T3 i0 c0 sc0 u ds0 d0 t s0 eid0 Hu).
       - destruct G2 as [_ I2]. apply I2. exact P4.
       - eapply dpath_gr; eauto.
       - rewrite (gr_layers _ _ G2). exact P1.
@@ -1259,11 +1407,11 @@ Section Sim.
       { split; [exact HE2|]. split; [change (m_layer_end m2) with (m_layer_end m1); lia|].
         split; [unfold m2; msimpl; rewrite upd_nth_length; lia|].
         unfold m2. rewrite gn_upd_same by lia. reflexivity. }
-      destruct (Core m2 rid) as (C1 & C2 & C3).
+      destruct (Core m2 rid) as (C1 & C2 & C2s & C3).
       { eapply gr_trans; eauto. } { exact R2. }
       { unfold m2. rewrite gn_upd_same by lia. exact Heq. }
       { unfold m2. msimpl. rewrite upd_nth_length. lia. }
-      cbv zeta in C1, C2, C3.
+      cbv zeta in C1, C2, C2s, C3.
       set (m3 := fold_left (drop_step inp merged rid) mrg m2) in *.
       cbn [fst snd].
       set (m4 := upd_node m3 (nth w1 sorted 0) clear_deleted_flag).
@@ -1271,7 +1419,10 @@ Section Sim.
       { unfold m4. apply ceq_upd_node. intros n. apply core_eq_set_flags_nc; reflexivity. }
       assert (G34 : gr m3 m4) by (unfold m4; apply gr_upd_node; intros; reflexivity).
       split; [eapply Einv_ceq; eauto|]. split; [eapply gr_trans; eauto|].
-      intros u ds s' Hu Hne Hp. apply Hsorted in Hu. rewrite Hsplit in Hu. apply in_app_or in Hu.
+      split.
+      { eapply srcs_trans; [apply (srcs_edges_eq m m2); unfold m2; msimpl; exact F2|].
+        eapply srcs_trans; [exact C2s|]. apply srcs_edges_eq. reflexivity. }
+      intros i0 c0 sc0 u ds s' Hu Hne Hp. apply Hsorted in Hu. rewrite Hsplit in Hu. apply in_app_or in Hu.
       destruct Hu as [Hu|Hu].
       + exists u. split.
         * assert (Hfs : firstn (S w1) sorted = firstn (S w1) (keep ++ mrg)) by (rewrite <- Hsplit; reflexivity).
@@ -1282,7 +1433,7 @@ Section Sim.
         * assert (Hfs : firstn (S w1) sorted = firstn (S w1) (keep ++ mrg)) by (rewrite <- Hsplit; reflexivity).
           rewrite Hfs. rewrite firstn_app. apply in_or_app. left.
           rewrite firstn_all2; [exact Hin|]. unfold keep. rewrite firstn_length. lia.
-        * eapply dpath_gr; [exact G34|]. apply (C3 u); auto.
+        * eapply dpath_gr; [exact G34|]. apply (C3 i0 c0 sc0 u); auto.
     - (* fresh merged node *)
       set (mid := length (m_nodes m1)).
       set (n := merged_node merged (n_depth (gn m1 (hd 0 mrg)))).
@@ -1300,16 +1451,18 @@ Section Sim.
       { split; [exact HE2|]. split; [exact Hle1|].
         split; [unfold m2; msimpl; rewrite upd_nth_length; fold m1'; lia|].
         unfold m2. rewrite gn_upd_same by lia. reflexivity. }
-      destruct (Core m2 mid) as (C1 & C2 & C3).
+      destruct (Core m2 mid) as (C1 & C2 & C2s & C3).
       { eapply gr_trans; [exact G1|]. eapply gr_trans; eauto. } { exact R2. }
       { unfold m2. rewrite gn_upd_same by lia. unfold m1', mid. rewrite gn_snoc_new. reflexivity. }
       { unfold m2. msimpl. rewrite upd_nth_length. fold m1'. lia. }
-      cbv zeta in C1, C2, C3. cbn [fst snd].
+      cbv zeta in C1, C2, C2s, C3. cbn [fst snd].
       split; [exact C1|]. split; [exact C2|].
-      intros u ds s' Hu Hne Hp. apply Hsorted in Hu. rewrite Hsplit in Hu. apply in_app_or in Hu.
+      split.
+      { eapply srcs_trans; [apply (srcs_edges_eq m m2); unfold m2, m1'; msimpl; exact F2|exact C2s]. }
+      intros i0 c0 sc0 u ds s' Hu Hne Hp. apply Hsorted in Hu. rewrite Hsplit in Hu. apply in_app_or in Hu.
       destruct Hu as [Hu|Hu].
       + exists u. split; [apply in_or_app; left; exact Hu|]. eapply dpath_gr; eauto.
-      + exists mid. split; [apply in_or_app; right; left; reflexivity|]. apply (C3 u); auto.
+      + exists mid. split; [apply in_or_app; right; left; reflexivity|]. apply (C3 i0 c0 sc0 u); auto.
   Qed.
 
   (* ---------------------------------------------------------------- 2i. squash_if_needed *)
@@ -1333,26 +1486,28 @@ Section Sim.
   Lemma squash_sim (mc : mdd) lc dd :
     Dinv inp mc -> Xinv inp mc -> Einv mc -> layer_ok inp mc lc dd ->
     Einv (fst (squash_if_needed st_eqb inp mc lc)) /\ gr mc (fst (squash_if_needed st_eqb inp mc lc)) /\
+    srcs mc (fst (squash_if_needed st_eqb inp mc lc)) /\
     (enabled (fst (squash_if_needed st_eqb inp mc lc)) -> enabled mc) /\
-    forall u ds s', In u lc -> (1 < length (m_layers mc) -> ds <> []) ->
-      enabled (fst (squash_if_needed st_eqb inp mc lc)) -> dpath mc 0 0 rs ds u s' ->
+    forall i0 c0 sc0 u ds s', In u lc -> (1 < length (m_layers mc) -> ds <> []) ->
+      enabled (fst (squash_if_needed st_eqb inp mc lc)) -> dpath mc i0 c0 sc0 ds u s' ->
       exists u', In u' (snd (squash_if_needed st_eqb inp mc lc)) /\
-                 dpath (fst (squash_if_needed st_eqb inp mc lc)) 0 0 rs ds u' s'.
+                 dpath (fst (squash_if_needed st_eqb inp mc lc)) i0 c0 sc0 ds u' s'.
   Proof.
     intros HD HX HE Hl. unfold squash_if_needed.
-    assert (Htriv : Einv mc /\ gr mc mc /\ (enabled mc -> enabled mc) /\
-              forall u ds s', In u lc -> (1 < length (m_layers mc) -> ds <> []) -> enabled mc ->
-                dpath mc 0 0 rs ds u s' -> exists u', In u' lc /\ dpath mc 0 0 rs ds u' s').
-    { split; [exact HE|]. split; [apply gr_refl|]. split; [auto|]. intros u ds s' Hu _ _ Hp. exists u; auto. }
+    assert (Htriv : Einv mc /\ gr mc mc /\ srcs mc mc /\ (enabled mc -> enabled mc) /\
+              forall i0 c0 sc0 u ds s', In u lc -> (1 < length (m_layers mc) -> ds <> []) -> enabled mc ->
+                dpath mc i0 c0 sc0 ds u s' -> exists u', In u' lc /\ dpath mc i0 c0 sc0 ds u' s').
+    { split; [exact HE|]. split; [apply gr_refl|]. split; [apply srcs_refl|]. split; [auto|].
+      intros i0 c0 sc0 u ds s' Hu _ _ Hp. exists u; auto. }
     destruct (ci_type inp) eqn:Et.
     - exact Htriv.
     - destruct (Nat.ltb (ci_width inp) (length lc) && Nat.ltb 1 (length (m_layers mc))) eqn:Eg; [|exact Htriv].
       apply andb_true_iff in Eg. destruct Eg as [E1 E2].
       apply Nat.ltb_lt in E1. apply Nat.ltb_lt in E2.
-      destruct (relax_layer_sim mc lc dd HD HE Hl E1) as (R1 & R2 & R3).
-      split; [exact R1|]. split; [exact R2|]. split.
+      destruct (relax_layer_sim mc lc dd HD HE Hl E1) as (R1 & R2 & R2s & R3).
+      split; [exact R1|]. split; [exact R2|]. split; [exact R2s|]. split.
       + intros _ Ht. rewrite Et in Ht. discriminate.
-      + intros u ds s' Hu Hne _ Hp. apply (R3 u); auto.
+      + intros i0 c0 sc0 u ds s' Hu Hne _ Hp. apply (R3 i0 c0 sc0 u); auto.
     - destruct (Nat.ltb (ci_width inp) (length lc)) eqn:Eg; [|exact Htriv].
       unfold restrict_layer. cbv zeta. cbn [fst snd].
       destruct (note_squash_fields inp Hclean mc) as (F1 & F2 & F3 & F4 & F5 & F6 & F7 & F8 & F9).
@@ -1367,8 +1522,10 @@ Section Sim.
       split; [eapply Einv_ceq; eauto|]. split.
       { eapply gr_trans; [exact G0|]. apply gr_ceq; [exact Hc|apply ext_mark_deleted]. }
       split.
+      { apply srcs_edges_eq. destruct Hc as ((Hce & _) & _). rewrite Hce. exact F2. }
+      split.
       + intros Hen. exfalso. apply Hlel. apply Hen. exact Et.
-      + intros u ds s' _ _ Hen. exfalso. apply Hlel. apply Hen. exact Et.
+      + intros i0 c0 sc0 u ds s' _ _ Hen. exfalso. apply Hlel. apply Hen. exact Et.
   Qed.
 
   (* ---------------------------------------------------------------- 2j. _move_to_next_layer *)
@@ -1385,8 +1542,13 @@ Section Sim.
       m_curr_depth m3 = m_curr_depth m /\ m_layers m3 = m_layers m ++ [ids] /\
       (forall id, In id l -> In id ids) /\
       (enabled m3 -> enabled m) /\
-      forall u ds s', In u (m_next m) -> (1 < length (m_layers m) -> ds <> []) -> enabled m3 ->
-        dpath m 0 0 rs ds u s' -> exists u', In u' l /\ dpath m3 0 0 rs ds u' s'.
+      (forall i0 c0 sc0 u ds s', In u (m_next m) -> (1 < length (m_layers m) -> ds <> []) -> enabled m3 ->
+        dpath m i0 c0 sc0 ds u s' -> exists u', In u' l /\ dpath m3 i0 c0 sc0 ds u' s') /\
+      srcs m m3 /\
+      (forall x, x < m_layer_end m -> core_eq (gn m x) (gn m3 x)) /\
+      (forall x, Src m3 x -> ~ In x ids) /\
+      (forall x, In x ids -> m_layer_end m <= x) /\
+      m_layer_end m <= m_layer_end m3.
   Proof.
     intros (HD & HX & Hnd & HE) Hne.
     rewrite move_clean_unfold.
@@ -1420,7 +1582,7 @@ Section Sim.
     assert (Hnc : m_next mc = []) by (destruct Hac as (_ & Hn & _); rewrite Hn; reflexivity).
     (* squash *)
     destruct (squash_if_needed_inv st_eqb inp Hclean mc lc d HDc HXc Hlcl) as (Q1 & Q2 & Q3 & Q4 & Q5).
-    destruct (squash_sim mc lc d HDc HXc HEc Hlcl) as (S1 & S2 & S3 & S4).
+    destruct (squash_sim mc lc d HDc HXc HEc Hlcl) as (S1 & S2 & S2s & S3 & S4).
     destruct (squash_if_needed st_eqb inp mc lc) as [md ld]. cbn [fst snd] in *.
     set (from := m_layer_end md). set (to := length (m_nodes md)).
     assert (Hft : from <= to) by apply (D_le _ _ _ Q1).
@@ -1431,7 +1593,11 @@ Section Sim.
     assert (Hlay3 : m_layers m3 = m_layers m ++ [seq from (to - from)]).
     { unfold m3. msimpl. f_equal. rewrite (gr_layers _ _ S2).
       destruct Hac as (_ & _ & _ & Hl & _). rewrite Hl. reflexivity. }
-    split; [|split; [|split; [|split; [|split; [|split; [|split]]]]]].
+    assert (Hle_mc : m_layer_end mc = m_layer_end m).
+    { destruct Hac as (_ & _ & Hl & _). rewrite Hl. reflexivity. }
+    assert (Hle_md : m_layer_end md = m_layer_end m).
+    { destruct Q3 as (q1 & _). rewrite q1. exact Hle_mc. }
+    split; [|split; [|split; [|split; [|split; [|split; [|split; [|split; [|split; [|split; [|split; [|split]]]]]]]]]]].
     - split; [|split; [|split]].
       + eapply (Dg_peq inp Hclean); [exact Hp|exact Q1|exact Hft|apply Nat.le_refl|].
         intros id Hid. unfold m3 in Hid. msimpl_in Hid. rewrite Q4, Hnc in Hid. destruct Hid.
@@ -1449,16 +1615,114 @@ Section Sim.
     - intros id Hid. destruct (Q5 id Hid) as [Hr _]. apply in_seq. unfold from, to. lia.
     - intros Hen. assert (Hmc : enabled mc) by (apply S3; exact Hen).
       intros Ht. specialize (Hmc Ht). destruct Hac as (_ & _ & _ & _ & Hlel & _). rewrite Hlel in Hmc. exact Hmc.
-    - intros u ds s' Hu Hds Hen Hpth.
-      assert (Hpc : dpath mc 0 0 rs ds u s').
+    - intros i0 cc0 sc0 u ds s' Hu Hds Hen Hpth.
+      assert (Hpc : dpath mc i0 cc0 sc0 ds u s').
       { eapply dpath_ceq; [exact Hac|]. eapply dpath_peq; [exact Hpa| |exact Hpth]. auto. }
-      destruct (S4 u ds s') as (u' & Hu' & Hp').
+      destruct (S4 i0 cc0 sc0 u ds s') as (u' & Hu' & Hp').
       + apply Hlc. exact Hu.
       + intros H1. apply Hds. destruct Hac as (_ & _ & _ & Hl & _). rewrite Hl in H1. exact H1.
       + exact Hen.
       + exact Hpc.
       + exists u'. split; [exact Hu'|]. eapply dpath_peq; [exact Hp| |exact Hp'].
         intros k x. unfold m3. msimpl. apply nth_layers_app.
+    - eapply srcs_trans; [|eapply srcs_trans; [exact S2s|apply srcs_edges_eq; reflexivity]].
+      apply srcs_edges_eq. destruct Hac as ((Hce & _) & _). rewrite Hce. reflexivity.
+    - intros x Hx.
+      destruct Hpa as (_ & _ & _ & A4a). destruct Hac as ((_ & _ & _ & A4c) & _).
+      destruct Q3 as (_ & _ & q3 & _). destruct Hp as (_ & _ & _ & A4p).
+      eapply (core_eq_trans inp Hclean); [apply A4a|]. eapply (core_eq_trans inp Hclean); [apply A4c|].
+      eapply (core_eq_trans inp Hclean); [apply q3; rewrite Hle_mc; exact Hx|apply A4p].
+    - intros x (eid & He1 & He2) Hin. apply in_seq in Hin.
+      change (m_edges m3) with (m_edges md) in He1. change (get_edge m3 eid) with (get_edge md eid) in He2.
+      pose proof (E_from _ S1 eid He1) as Hf. rewrite He2 in Hf. unfold from in Hin. lia.
+    - intros x Hin. apply in_seq in Hin. unfold from in Hin. lia.
+    - unfold m3. msimpl. unfold to, from in *. lia.
+  Qed.
+
+  (* ---------------------------------------------------------------- sources created by an expansion *)
+  Lemma Src_branch_on (a : mdd) id d c : Src (branch_on st_eqb inp a id d) c -> Src a c \/ c = id.
+  Proof.
+    intros (eid & H1 & H2).
+    destruct (branch_on_edge st_eqb inp a id d) as (e & He & Hf & _).
+    rewrite He, app_length in H1. simpl in H1.
+    destruct (Nat.eq_dec eid (length (m_edges a))) as [->|Hne].
+    - right. rewrite (ge_snoc_new a _ e He) in H2. congruence.
+    - left. exists eid. split; [lia|]. rewrite (ge_snoc_old a _ e eid He) in H2 by lia. exact H2.
+  Qed.
+
+  Lemma Src_expand_node var (a : mdd) id c : Src (expand_node st_eqb inp var a id) c -> Src a c \/ c = id.
+  Proof.
+    unfold expand_node. cbv zeta.
+    set (a1 := upd_node a id _).
+    assert (S1 : srcs a a1) by (apply srcs_edges_eq; reflexivity).
+    destruct (_ >? _)%Z; [|intros H; left; apply S1; exact H].
+    set (a2 := add_log a1 _).
+    assert (S2 : srcs a a2) by (apply srcs_edges_eq; reflexivity).
+    intros H.
+    assert (G : forall l b, (forall x, Src b x -> Src a x \/ x = id) ->
+              forall x, Src (fold_left (fun m0 val => branch_on st_eqb inp m0 id {| d_var := var; d_val := val |}) l b) x ->
+              Src a x \/ x = id).
+    { induction l as [|v l IH]; intros b Hb x Hx; simpl in Hx; [apply Hb; exact Hx|].
+      apply (IH _ (fun y Hy => match Src_branch_on b id _ y Hy with
+                               | or_introl H0 => Hb y H0 | or_intror H0 => or_intror H0 end) x Hx). }
+    eapply (G _ a2); [|exact H]. intros x Hx. left. apply S2. exact Hx.
+  Qed.
+
+  Lemma Src_expand_layer var l : forall (a : mdd) c,
+    Src (fold_left (expand_node st_eqb inp var) l a) c -> Src a c \/ In c l.
+  Proof.
+    induction l as [|id l IH]; intros a c H; simpl in H; [left; exact H|].
+    destruct (IH _ c H) as [H1|H1]; [|right; right; exact H1].
+    destruct (Src_expand_node var a id c H1) as [H2|H2]; [left; exact H2|right; left; congruence].
+  Qed.
+
+  (* ---------------------------------------------------------------- prefixes of a promising run, any start *)
+  Lemma run_prefix k0 s0 v0 ds sN w jj :
+    frn k0 s0 v0 ds = Some (sN, w) -> k0 + length ds = N -> (lb < w)%Z -> jj < length ds ->
+    exists s1 v1 dj rest h, frn k0 s0 v0 (firstn jj ds) = Some (s1, v1) /\ skipn jj ds = dj :: rest /\
+      var_ok pb (k0 + jj) dj = true /\ In (d_val dj) (domain pb (d_var dj) s1) /\
+      H pb (k0 + jj) s1 = Some h /\ (lb < v1 + h)%Z.
+  Proof.
+    intros Hr Hlen Hlb Hj.
+    assert (Hfl : length (firstn jj ds) = jj) by (rewrite firstn_length; lia).
+    rewrite <- (firstn_skipn jj ds) in Hr. rewrite frun_app in Hr. rewrite Hfl in Hr.
+    destruct (frn k0 s0 v0 (firstn jj ds)) as [[s1 v1]|] eqn:E1; [|discriminate].
+    destruct (skipn jj ds) as [|dj rest] eqn:Es.
+    { exfalso. pose proof (skipn_length jj ds) as Hs. rewrite Es in Hs. simpl in Hs. lia. }
+    assert (Hsl : length (dj :: rest) = length ds - jj) by (rewrite <- Es; apply skipn_length).
+    destruct (frun_le_H pb nv_static nv_none (dj :: rest) (k0 + jj) s1 v1 sN w) as (h & Hh & Hle); [lia|exact Hr|].
+    cbn [frun] in Hr. destruct (var_ok pb (k0 + jj) dj) eqn:Ev; [|discriminate].
+    destruct (in_domain pb s1 dj) eqn:Ed; [|discriminate].
+    exists s1, v1, dj, rest, h. repeat split; auto; [apply in_domain_In; exact Ed|lia].
+  Qed.
+
+  Lemma frun_len_le ds : forall k s v r, frn k s v ds = Some r -> k <= N -> k + length ds <= N.
+  Proof.
+    induction ds as [|d ds IH]; intros k s v r Hr Hk; simpl in *; [lia|].
+    destruct (var_ok pb k d) eqn:Ev; simpl in Hr; [|discriminate].
+    destruct (in_domain pb s d); [|discriminate].
+    assert (Hlt : k < N).
+    { destruct (Nat.lt_ge_cases k N) as [H1|H1]; [exact H1|].
+      unfold var_ok in Ev. rewrite nv_none in Ev by exact H1. discriminate. }
+    specialize (IH (S k) _ _ r Hr Hlt). lia.
+  Qed.
+
+  Definition Start (i : nat) (sc : St) (vc : Z) : Prop :=
+    exists pre, frn rd rs rv pre = Some (sc, vc) /\ length pre = i.
+
+  Lemma Start_isize i sc vc ds1 s1 v1 : Start i sc vc -> frn (rd + i) sc vc ds1 = Some (s1, v1) -> in_isize v1.
+  Proof.
+    intros (pre & Hp & Hl) Hr. apply (guard_isize (pre ++ ds1) s1). rewrite frun_app, Hp, Hl. exact Hr.
+  Qed.
+
+  Lemma Start_H_isize i sc vc ds1 s1 v1 h :
+    Start i sc vc -> frn (rd + i) sc vc ds1 = Some (s1, v1) -> rd + i + length ds1 <= N ->
+    H pb (rd + i + length ds1) s1 = Some h -> in_isize (v1 + h).
+  Proof.
+    intros HS Hr Hle Hh.
+    destruct (H_attained pb nv_static nv_some nv_none (N - (rd + i + length ds1)) (rd + i + length ds1) s1 v1 h eq_refl Hle Hh)
+      as (ds2 & s2 & Hr2 & _).
+    apply (Start_isize i sc vc (ds1 ++ ds2) s2 _ HS). rewrite frun_app, Hr. exact Hr2.
   Qed.
 
   (* ---------------------------------------------------------------- 2k. the layer loop *)
@@ -1495,15 +1759,39 @@ Section Sim.
     forall ds sN w, prom ds sN w -> enabled m ->
     exists u s', In u (m_next m) /\ dpath m 0 0 rs (firstn (m_curr_depth m - rd) ds) u s'.
 
+  (* the same from any expanded node [c] of a closed layer [i], for any true state it covers *)
+  Definition promC (i : nat) (sc : St) (vc : Z) (ds2 : list decision) (sN : St) (w : Z) : Prop :=
+    frn (rd + i) sc vc ds2 = Some (sN, w) /\ rd + i + length ds2 = N /\ (lb < w)%Z.
+
+  Definition UTinv (m : mdd) : Prop :=
+    forall i c sc vc ds2 sN w, i < m_curr_depth m - rd ->
+      In c (nth i (m_layers m) []) -> Src m c ->
+      cov (n_state (gn m c)) sc -> (vc <= n_vtop (gn m c))%Z -> Start i sc vc ->
+      promC i sc vc ds2 sN w -> enabled m ->
+      n_depth (gn m c) = rd + i /\
+      exists u s', In u (m_next m) /\ dpath m i c sc (firstn (m_curr_depth m - rd - i) ds2) u s'.
+
+  Definition SrcLay (m : mdd) : Prop :=
+    forall c, Src m c -> exists i, In c (nth i (m_layers m) []) /\ n_depth (gn m c) = rd + i.
+
   Definition Linv (m : mdd) : Prop :=
     Cinv (m_curr_depth m) m /\ rd <= m_curr_depth m /\ m_curr_depth m <= N /\
-    length (m_layers m) = m_curr_depth m - rd /\ Tinv m.
+    length (m_layers m) = m_curr_depth m - rd /\ Tinv m /\ UTinv m /\ SrcLay m.
+
+  Definition UPost (ml : mdd) : Prop :=
+    forall i c sc vc ds2 sN w,
+      In c (nth i (m_layers ml) []) -> Src ml c ->
+      cov (n_state (gn ml c)) sc -> (vc <= n_vtop (gn ml c))%Z -> Start i sc vc ->
+      promC i sc vc ds2 sN w -> enabled ml ->
+      Einv ml /\ Xinv inp ml /\ length (m_layers ml) = N - rd /\ n_depth (gn ml c) = rd + i /\
+      exists u s', In u (m_next ml) /\ m_layer_end ml <= u < length (m_nodes ml) /\ dpath ml i c sc ds2 u s'.
 
   Definition Post (ml : mdd) : Prop :=
     (forall u, In u (m_next ml) -> n_depth (gn ml u) = N) /\
-    forall ds sN w, prom ds sN w -> enabled ml ->
+    (forall ds sN w, prom ds sN w -> enabled ml ->
       Einv ml /\ length (m_layers ml) = N - rd /\
-      exists u s', In u (m_next ml) /\ m_layer_end ml <= u < length (m_nodes ml) /\ dpath ml 0 0 rs ds u s'.
+      exists u s', In u (m_next ml) /\ m_layer_end ml <= u < length (m_nodes ml) /\ dpath ml 0 0 rs ds u s') /\
+    UPost ml /\ SrcLay ml /\ (m_next ml <> [] -> Xinv inp ml).
 
   Lemma dpath_frame m m' i u s ds t s' :
     m_nodes m' = m_nodes m -> m_edges m' = m_edges m -> m_layers m' = m_layers m ->
@@ -1520,7 +1808,7 @@ Section Sim.
     Linv m -> layer_loop st_eqb inp fuel m = (m', LoopDone) -> Post m'.
   Proof.
     induction fuel as [|fuel IH]; intros m m' HL Hloop; [simpl in Hloop; inversion Hloop|].
-    destruct HL as (HC & Hd1 & Hd2 & Hlen & HT).
+    destruct HL as (HC & Hd1 & Hd2 & Hlen & HT & HU & HSL).
     set (d := m_curr_depth m) in *.
     cbn [layer_loop] in Hloop. cbv zeta in Hloop.
     set (states := map (fun id => n_state (gn m id)) (m_next m)) in *.
@@ -1532,7 +1820,7 @@ Section Sim.
       { destruct (Nat.lt_ge_cases d N) as [Hlt|Hge]; [|lia].
         destruct (nv_some d states Hlt) as [x Hx]. unfold d in Hx. rewrite Hx in Eov. discriminate. }
       destruct HC as (HD & HX & Hnd & HE).
-      split.
+      split; [|split; [|split; [|split]]].
       - intros u Hu. change (n_depth (gn m u) = N). rewrite <- HdN. apply Hnd. exact Hu.
       - intros ds sN w Hp Hen.
         split; [eapply Einv_frame; [| | | |exact HE]; try reflexivity; apply (E_le _ HE)|].
@@ -1541,7 +1829,21 @@ Section Sim.
         exists u, s'. split; [exact Hu|]. split; [apply (D_next _ _ _ HD u Hu)|].
         destruct Hp as (_ & Hl & _).
         rewrite firstn_all2 in Hpth by (fold d; lia).
-        eapply dpath_frame; [| | |exact Hpth]; reflexivity. }
+        eapply dpath_frame; [| | |exact Hpth]; reflexivity.
+      - intros i c sc vc ds2 sN w Hc HSrc Hcov Hvc HSt Hpc Hen.
+        assert (Hi : i < d - rd).
+        { destruct (Nat.lt_ge_cases i (length (m_layers m))) as [Hlt|Hge]; [lia|].
+          msimpl_in Hc. rewrite nth_overflow in Hc by exact Hge. destruct Hc. }
+        destruct (HU i c sc vc ds2 sN w Hi Hc HSrc Hcov Hvc HSt Hpc Hen) as (Hdep & u & s' & Hu & Hpth).
+        split; [eapply Einv_frame; [| | | |exact HE]; try reflexivity; apply (E_le _ HE)|].
+        split; [eapply Xinv_ceq; [apply ceq_add_log|exact HX]|].
+        split; [msimpl; rewrite Hlen; lia|]. split; [exact Hdep|].
+        exists u, s'. split; [exact Hu|]. split; [apply (D_next _ _ _ HD u Hu)|].
+        destruct Hpc as (_ & Hl & _). fold d in Hpth.
+        rewrite firstn_all2 in Hpth by lia.
+        eapply dpath_frame; [| | |exact Hpth]; reflexivity.
+      - exact HSL.
+      - intros _. eapply Xinv_ceq; [apply ceq_add_log|exact HX]. }
     set (m1 := add_log m (EvNextVar (m_curr_depth m) states (Some var))) in *.
     set (m2 := with_polls m1 (S (m_polls m1))) in *.
     rewrite Hnocut in Hloop. cbn [Nat.ltb Nat.leb andb] in Hloop.
@@ -1558,11 +1860,22 @@ Section Sim.
     - (* the next layer is empty: the loop stops *)
       rewrite move_clean_unfold in Hloop. change (m_next m2) with (m_next m) in Hloop. rewrite En in Hloop.
       inversion Hloop; subst m'. clear Hloop.
-      split; [intros u []|].
-      intros ds sN w Hp Hen. exfalso.
-      destruct (HT ds sN w Hp) as (u & s' & Hu & _); [exact Hen|]. rewrite En in Hu. destruct Hu.
+      split; [intros u []|]. split; [|split; [|split]].
+      + intros ds sN w Hp Hen. exfalso.
+        destruct (HT ds sN w Hp) as (u & s' & Hu & _); [exact Hen|]. rewrite En in Hu. destruct Hu.
+      + intros i c sc vc ds2 sN w Hc HSrc Hcov Hvc HSt Hpc Hen. exfalso.
+        msimpl_in Hc.
+        assert (Hi : i < d - rd).
+        { destruct (Nat.lt_ge_cases i (length (m_layers m))) as [Hlt|Hge]; [lia|].
+          rewrite app_nth2 in Hc by exact Hge.
+          destruct (i - length (m_layers m2)) as [|k]; [simpl in Hc; destruct Hc|destruct k; simpl in Hc; destruct Hc]. }
+        change (m_layers m2) with (m_layers m) in Hc. rewrite app_nth1 in Hc by lia.
+        destruct (HU i c sc vc ds2 sN w Hi Hc HSrc Hcov Hvc HSt Hpc Hen) as (_ & u & s' & Hu & _).
+        rewrite En in Hu. destruct Hu.
+      + intros c Hc. destruct (HSL c Hc) as (i & Hi & Hdp). exists i. split; [msimpl; apply nth_layers_app; exact Hi|exact Hdp].
+      + intros Hne. exfalso. apply Hne. reflexivity.
     - assert (Hne : m_next m2 <> []) by (change (m_next m2) with (m_next m); rewrite En; discriminate).
-      destruct (move_sim m2 d HC2 Hne) as (m3 & l & ids & Emv & C3 & N3 & L3 & D3 & Ly3 & Lids & En3 & T3).
+      destruct (move_sim m2 d HC2 Hne) as (m3 & l & ids & Emv & C3 & N3 & L3 & D3 & Ly3 & Lids & En3 & T3 & Sr3 & Cl3 & Ns3 & Ge3 & Le3).
       rewrite Emv in Hloop.
       destruct (expand_layer_Cinv var l d m3 C3 L3) as (C4 & S4 & G4).
       { exists states. exact Eov. }
@@ -1573,7 +1886,13 @@ Section Sim.
       apply (IH m5 m'); [|exact Hloop].
       assert (Hp5 : peq inp m4 m5) by (apply peq_same_nodes; reflexivity).
       assert (Hly4 : m_layers m4 = m_layers m ++ [ids]) by (rewrite (gr_layers _ _ G4); exact Ly3).
-      split; [|split; [|split; [|split]]].
+      assert (Hen35 : enabled m5 -> enabled m3).
+      { intros Hen5 Ht. specialize (Hen5 Ht). change (m_lel m5) with (m_lel m4) in Hen5.
+        unfold m4 in Hen5. rewrite expand_layer_lel in Hen5. exact Hen5. }
+      assert (Hdj_of : forall dj k, var_ok pb (rd + k) dj = true -> rd + k = d -> var = d_var dj).
+      { intros dj k P3 Hk. apply (var_ok_spec pb nv_static (rd + k) dj states) in P3.
+        rewrite Hk in P3. unfold d in P3. rewrite P3 in Eov. inversion Eov; reflexivity. }
+      split; [|split; [|split; [|split; [|split; [|split]]]]].
       + change (m_curr_depth m5) with (S (m_curr_depth m4)). rewrite Hcd4.
         destruct C4 as (D4 & X4 & Nd4 & E4).
         split; [|split; [|split]].
@@ -1602,7 +1921,7 @@ Section Sim.
         assert (Hs1 : s1 = s').
         { rewrite (frun_state pb _ _ _ _ _ _ P1). symmetry. apply (dpath_state _ _ _ _ _ _ _ Hpth). }
         subst s1.
-        destruct (T3 u (firstn j ds) s') as (u' & Hu' & Hp3).
+        destruct (T3 0 0 rs u (firstn j ds) s') as (u' & Hu' & Hp3).
         * change (m_next m2) with (m_next m). exact Hu.
         * intros H1. change (m_layers m2) with (m_layers m) in H1. rewrite Hlen in H1. fold j in H1.
           intros E. rewrite E in Hfl. simpl in Hfl. lia.
@@ -1612,13 +1931,18 @@ Section Sim.
           { apply (var_ok_spec pb nv_static (rd + j) dj states) in P3.
             replace (rd + j) with d in P3 by (unfold j; lia). unfold d in P3. rewrite P3 in Eov.
             inversion Eov; reflexivity. }
-          destruct (expand_layer_track var l d m3 u' (firstn j ds) s' v1 (d_val dj) h) as (t' & Ht' & Hpt'); auto.
+          pose proof (expand_layer_track var l d m3 0 0 rs rv u' (firstn j ds) s' v1 (d_val dj) h) as X.
+          cbv zeta in X. rewrite !Nat.add_0_r in X.
+          destruct X as (t' & Ht' & Hpt'); auto.
           -- exists states. exact Eov.
-          -- rewrite Hfl, Ly3. change (m_layers m2) with (m_layers m). rewrite app_nth2 by lia.
+          -- destruct (L3 u' Hu'). lia.
+          -- apply root_vtop. apply C3.
+          -- intros ds1 s1 w1 Hr1. eapply guard_isize; eauto.
+          -- simpl. rewrite Hfl, Ly3. change (m_layers m2) with (m_layers m). rewrite app_nth2 by lia.
              rewrite Hlen. fold j. rewrite Nat.sub_diag. simpl. apply Lids. exact Hu'.
-          -- rewrite Hfl. unfold j. lia.
           -- rewrite Hdj. exact P4.
           -- rewrite Hfl. exact P5.
+          -- apply (prefix_isize (firstn j ds) s' v1 h P1); [rewrite Hfl; unfold j; lia|rewrite Hfl; exact P5].
           -- fold m4 in Ht', Hpt'. exists t', (transition pb s' {| d_var := var; d_val := d_val dj |}).
              split; [exact Ht'|].
              replace (S d - rd) with (S j) by (unfold j; lia).
@@ -1626,13 +1950,141 @@ Section Sim.
              assert (Edj : dj = {| d_var := var; d_val := d_val dj |}) by (rewrite Hdj; destruct dj; reflexivity).
              rewrite Edj at 1.
              eapply dpath_frame; [| | |exact Hpt']; reflexivity.
+      + (* tracking from every expanded node *)
+        intros i c sc vc ds2 sN w Hi Hc HSrc Hcov Hvc HSt Hpc Hen5.
+        change (m_curr_depth m5) with (S (m_curr_depth m4)) in Hi |- *. rewrite Hcd4 in Hi |- *.
+        change (m_layers m5) with (m_layers m4) in Hc. rewrite Hly4 in Hc.
+        change (gn m5 c) with (gn m4 c) in Hcov, Hvc |- *.
+        pose proof (Hen35 Hen5) as Hen3.
+        assert (Hen : enabled m) by (intros Ht; exact (En3 Hen3 Ht)).
+        set (j := d - rd) in *.
+        pose proof Hpc as (Hrun & Hdsl & Hlbw).
+        assert (HSrc4 : Src m4 c) by exact HSrc.
+        destruct C3 as (D3' & X3' & Nd3' & E3').
+        pose proof S4 as (s41 & s42 & s43 & s44 & s45).
+        destruct (Nat.lt_ge_cases i j) as [Hij|Hij].
+        * (* a start of an earlier layer *)
+          rewrite app_nth1 in Hc by lia.
+          assert (Hclt : c < m_layer_end m).
+          { destruct HC as (_ & HX & _). apply (X_layers _ _ _ HX (nth i (m_layers m) []) c); [apply nth_In; lia|exact Hc]. }
+          assert (Hcore : core_eq (gn m c) (gn m4 c)).
+          { eapply (core_eq_trans inp Hclean); [apply (Cl3 c Hclt)|]. apply s43.
+            change (m_layer_end m2) with (m_layer_end m) in Le3. lia. }
+          destruct Hcore as (k1 & k2 & _ & _ & _ & _ & k7).
+          assert (HSrcm : Src m c).
+          { destruct (Src_expand_layer var l m3 c HSrc4) as [H3|H3].
+            - apply Sr3 in H3. exact H3.
+            - exfalso. apply Lids in H3. apply Ge3 in H3. change (m_layer_end m2) with (m_layer_end m) in H3. lia. }
+          assert (Hcov' : cov (n_state (gn m c)) sc) by (rewrite k1; exact Hcov).
+          assert (Hvc' : (vc <= n_vtop (gn m c))%Z) by (rewrite k2; exact Hvc).
+          destruct (HU i c sc vc ds2 sN w Hij Hc HSrcm Hcov' Hvc' HSt Hpc Hen) as (Hdep & u & s' & Hu & Hpth).
+          fold d in Hpth. fold j in Hpth.
+          assert (Hjj : j - i < length ds2) by (unfold j; lia).
+          destruct (run_prefix (rd + i) sc vc ds2 sN w (j - i) Hrun Hdsl Hlbw Hjj)
+            as (s1 & v1 & dj & rest & h & P1 & P2 & P3 & P4 & P5 & P6).
+          assert (Hfl : length (firstn (j - i) ds2) = j - i) by (rewrite firstn_length; lia).
+          assert (Hs1 : s1 = s').
+          { rewrite (frun_state pb _ _ _ _ _ _ P1). symmetry. apply (dpath_state _ _ _ _ _ _ _ Hpth). }
+          subst s1.
+          destruct (T3 i c sc u (firstn (j - i) ds2) s') as (u' & Hu' & Hp3).
+          -- exact Hu.
+          -- intros _ E. rewrite E in Hfl. simpl in Hfl. lia.
+          -- exact Hen3.
+          -- eapply dpath_ceq; [exact Hc2|exact Hpth].
+          -- assert (Hdj : var = d_var dj) by (apply (Hdj_of dj (i + (j - i))); [rewrite Nat.add_assoc; exact P3|unfold j; lia]).
+             destruct (expand_layer_track var l d m3 i c sc vc u' (firstn (j - i) ds2) s' v1 (d_val dj) h)
+               as (t' & Ht' & Hpt').
+             ++ split; [exact D3'|]. split; [exact X3'|]. split; [exact Nd3'|exact E3'].
+             ++ exact L3.
+             ++ exists states. exact Eov.
+             ++ change (m_layer_end m2) with (m_layer_end m) in Le3. lia.
+             ++ destruct (Cl3 c Hclt) as (_ & q2 & _). rewrite <- q2.
+                change (gn m2 c) with (gn m c). rewrite k2. exact Hvc.
+             ++ intros ds1 s1 w1 Hr1. eapply Start_isize; eauto.
+             ++ exact Hu'.
+             ++ rewrite Hfl, Ly3. change (m_layers m2) with (m_layers m).
+                replace (i + (j - i)) with (length (m_layers m)) by (rewrite Hlen; fold j; lia).
+                rewrite app_nth2 by lia. rewrite Nat.sub_diag. simpl. apply Lids. exact Hu'.
+             ++ exact Hp3.
+             ++ exact P1.
+             ++ rewrite Hdj. exact P4.
+             ++ rewrite Hfl. exact P5.
+             ++ exact P6.
+             ++ apply (Start_H_isize i sc vc (firstn (j - i) ds2) s' v1 h HSt P1).
+                ** rewrite Hfl. unfold j. lia.
+                ** rewrite Hfl. exact P5.
+             ++ fold m4 in Ht', Hpt'. split; [rewrite <- k7; exact Hdep|].
+                exists t', (transition pb s' {| d_var := var; d_val := d_val dj |}).
+                split; [exact Ht'|].
+                replace (S d - rd - i) with (S (j - i)) by (unfold j; lia).
+                rewrite (firstn_S_skipn (j - i) ds2 dj rest P2).
+                assert (Edj : dj = {| d_var := var; d_val := d_val dj |}) by (rewrite Hdj; destruct dj; reflexivity).
+                rewrite Edj at 1.
+                eapply dpath_frame; [| | |exact Hpt']; reflexivity.
+        * (* a start of the layer just expanded *)
+          assert (i = j) by (unfold j in *; lia). subst i.
+          rewrite app_nth2 in Hc by lia. rewrite Hlen in Hc. fold j in Hc. rewrite Nat.sub_diag in Hc. simpl in Hc.
+          assert (Hcl : In c l).
+          { destruct (Src_expand_layer var l m3 c HSrc4) as [H3|H3]; [|exact H3].
+            exfalso. apply (Ns3 c H3). exact Hc. }
+          destruct (L3 c Hcl) as [Hclt Hcdep].
+          assert (Hclen : c < length (m_nodes m3)) by (pose proof (D_le _ _ _ D3'); lia).
+          destruct (s43 c Hclt) as (k1 & k2 & _ & _ & _ & _ & k7).
+          assert (Hjj : 0 < length ds2) by (unfold j in *; lia).
+          destruct (run_prefix (rd + j) sc vc ds2 sN w 0 Hrun Hdsl Hlbw Hjj)
+            as (s1 & v1 & dj & rest & h & P1 & P2 & P3 & P4 & P5 & P6).
+          simpl in P1. inversion P1; subst s1 v1. clear P1.
+          assert (Hdj : var = d_var dj) by (apply (Hdj_of dj (j + 0)); [rewrite Nat.add_assoc; exact P3|unfold j; lia]).
+          destruct (expand_layer_track var l d m3 j c sc vc c [] sc vc (d_val dj) h) as (t' & Ht' & Hpt').
+          -- split; [exact D3'|]. split; [exact X3'|]. split; [exact Nd3'|exact E3'].
+          -- exact L3.
+          -- exists states. exact Eov.
+          -- exact Hclt.
+          -- rewrite k2. exact Hvc.
+          -- intros ds1 s1 w1 Hr1. eapply Start_isize; eauto.
+          -- exact Hcl.
+          -- simpl. rewrite Nat.add_0_r, Ly3. change (m_layers m2) with (m_layers m).
+             rewrite app_nth2 by lia. rewrite Hlen. fold j. rewrite Nat.sub_diag. simpl. exact Hc.
+          -- apply dp_nil; [exact Hclen|]. rewrite k1. exact Hcov.
+          -- reflexivity.
+          -- rewrite Hdj. exact P4.
+          -- simpl. exact P5.
+          -- exact P6.
+          -- apply (Start_H_isize j sc vc [] sc vc h HSt eq_refl); [simpl; unfold j; lia|simpl; exact P5].
+          -- fold m4 in Ht', Hpt'. split; [rewrite <- k7, Hcdep; unfold j; lia|].
+             exists t', (transition pb sc {| d_var := var; d_val := d_val dj |}).
+             split; [exact Ht'|].
+             replace (S d - rd - j) with 1 by (unfold j; lia).
+             rewrite (firstn_S_skipn 0 ds2 dj rest P2). simpl firstn.
+             assert (Edj : dj = {| d_var := var; d_val := d_val dj |}) by (rewrite Hdj; destruct dj; reflexivity).
+             rewrite Edj at 1.
+             eapply dpath_frame; [| | |exact Hpt']; reflexivity.
+      + (* sources lie in layers *)
+        intros c HSrc. change (m_layers m5) with (m_layers m4). rewrite Hly4.
+        change (gn m5 c) with (gn m4 c).
+        pose proof S4 as (s41 & s42 & s43 & s44 & s45).
+        destruct (Src_expand_layer var l m3 c HSrc) as [H3|H3].
+        * apply Sr3 in H3. destruct (HSL c H3) as (i & Hi & Hdp). exists i. split; [apply nth_layers_app; exact Hi|].
+          assert (Hclt : c < m_layer_end m).
+          { destruct HC as (_ & HX & _).
+            destruct (Nat.lt_ge_cases i (length (m_layers m))) as [Hlt|Hge].
+            - apply (X_layers _ _ _ HX (nth i (m_layers m) []) c); [apply nth_In; exact Hlt|exact Hi].
+            - rewrite nth_overflow in Hi by exact Hge. destruct Hi. }
+          assert (Hcore : core_eq (gn m c) (gn m4 c)).
+          { eapply (core_eq_trans inp Hclean); [apply (Cl3 c Hclt)|]. apply s43.
+            change (m_layer_end m2) with (m_layer_end m) in Le3. lia. }
+          destruct Hcore as (_ & _ & _ & _ & _ & _ & k7). rewrite <- k7. exact Hdp.
+        * exists (length (m_layers m)). split.
+          -- rewrite app_nth2 by lia. rewrite Nat.sub_diag. simpl. apply Lids. exact H3.
+          -- destruct (L3 c H3) as [Hclt Hcdep]. destruct (s43 c Hclt) as (_ & _ & _ & _ & _ & _ & k7).
+             rewrite <- k7, Hcdep, Hlen. fold d. lia.
   Qed.
 
   (* ---------------------------------------------------------------- 2l. initial state, compile *)
   Lemma Linv_initialize c ds polls : Linv (initialize inp c ds polls).
   Proof.
     destruct (initialize_inv inp c ds polls) as (I1 & I2 & I3).
-    split; [|split; [|split; [|split]]].
+    split; [|split; [|split; [|split; [|split; [|split]]]]].
     - split; [exact I1|]. split; [exact I2|]. split; [exact I3|].
       split.
       + simpl. lia.
@@ -1644,6 +2096,8 @@ Section Sim.
     - intros ds0 sN w Hp Hen. exists 0, rs. split; [left; reflexivity|].
       replace (m_curr_depth (initialize inp c ds polls) - rd) with 0 by (simpl; fold root; fold rd; lia).
       simpl firstn. apply dp_nil; [simpl; lia|]. simpl. apply cov_refl.
+    - intros i cc sc vc ds2 sN w Hi. exfalso. simpl in Hi. fold root in Hi. fold rd in Hi. lia.
+    - intros cc (eid & He & _). simpl in He. lia.
   Qed.
 
   Lemma compile_post tb tb2 c ds polls m :
@@ -1879,6 +2333,9 @@ Section Sim.
   (* ================================================================== 3. the semantic theorems *)
   Definition vstar : option Z := oadd rv (H pb rd rs).
 
+  Lemma vstar_opt_enum : vstar = opt_enum_from pb rd rs rv.
+  Proof. unfold vstar. symmetry. apply opt_enum_from_H. Qed.
+
   Lemma vstar_prom o : vstar = Some o -> (lb < o)%Z -> exists ds sN, prom ds sN o.
   Proof.
     unfold vstar. intros Hv Hlb. destruct (H pb rd rs) as [h|] eqn:Eh; [|discriminate].
@@ -1904,7 +2361,7 @@ Section Sim.
       m_layer_end ml <= u < length (m_nodes ml) /\
       dpath ml 0 0 rs ds u s' /\ (o <= n_vtop (gn ml u))%Z.
   Proof.
-    intros HS (_ & HP) Hen Hv Hlb.
+    intros HS (_ & HP & _) Hen Hv Hlb.
     destruct (vstar_prom o Hv Hlb) as (ds & sN & Hp).
     destruct (HP ds sN o Hp Hen) as (HE & Hlen & u & s' & Hu & Hr & Hpth).
     pose proof Hp as (Hrun & _ & _).
@@ -2026,7 +2483,7 @@ Section Sim.
     destruct (F5 b Hb) as [Hblt Hcc].
     assert (Hdep : n_depth (gn m b) = N).
     { destruct (finalize_core tb tb2 ml b HS HX) as (_ & _ & _ & _ & _ & _ & c7). fold m in c7.
-      rewrite <- c7. apply HP. exact Hin. }
+      rewrite <- c7. apply (proj1 HP). exact Hin. }
     pose proof (exact_terminal_le m b o F3 Hcc Hblt Hdep Hv) as Hle.
     unfold dd_best_exact_value. rewrite Hb. simpl. f_equal. lia.
   Qed.
@@ -2049,7 +2506,7 @@ Section Sim.
     { apply (Sinv_exact_flag_clean_chain inp m F3 b Hblt). apply F7; auto. }
     assert (Hdep : n_depth (gn m b) = N).
     { destruct (finalize_core tb tb2 ml b HS HX) as (_ & _ & _ & _ & _ & _ & c7). fold m in c7.
-      rewrite <- c7. apply HP. exact Hin. }
+      rewrite <- c7. apply (proj1 HP). exact Hin. }
     pose proof (exact_terminal_le m b o F3 Hcc Hblt Hdep Hv) as Hle.
     unfold dd_best_value. rewrite Hb. simpl. f_equal. lia.
   Qed.
@@ -2057,7 +2514,8 @@ Section Sim.
   (* ================================================================== 4. a node-local invariant:
      no cut-set flag before _finalize; the rough bound of a node is IMAX or the user's bound of its state *)
   Definition Pn (n : node) : Prop :=
-    f_cutset (n_flags n) = false /\ (n_rub n = IMAX \/ n_rub n = fast_upper_bound rlx (n_state n)).
+    f_cutset (n_flags n) = false /\ f_marked (n_flags n) = false /\
+    (n_rub n = IMAX \/ n_rub n = fast_upper_bound rlx (n_state n)).
   Definition Ninv (m : mdd) : Prop := Forall Pn (m_nodes m).
 
   Lemma Forall_upd_nth_at {A} (P : A -> Prop) k f (l : list A) d :
@@ -2077,7 +2535,7 @@ Section Sim.
   Lemma Ninv_append_edge (m : mdd) e : Ninv m -> Ninv (append_edge inp m e).
   Proof.
     intros H. unfold Ninv. msimpl. apply Forall_upd_nth; [|exact H].
-    intros n [P1 P2]. split; nsimpl; auto.
+    intros n (P1 & P2 & P3). split; [|split]; nsimpl; auto.
   Qed.
 
   Lemma Ninv_snoc (m : mdd) n : Pn n -> Ninv m -> Ninv (with_nodes m (m_nodes m ++ [n])).
@@ -2092,7 +2550,7 @@ Section Sim.
     match goal with |- context [find_next ?a ?b ?c ?d] => destruct (find_next a b c d) end.
     - apply Ninv_append_edge. eapply Ninv_same; [|exact H]. reflexivity.
     - eapply Ninv_same; [reflexivity|]. apply Ninv_append_edge. apply Ninv_snoc.
-      + split; [reflexivity|left; reflexivity].
+      + split; [reflexivity|split; [reflexivity|left; reflexivity]].
       + eapply Ninv_same; [|exact H]. reflexivity.
   Qed.
 
@@ -2103,8 +2561,8 @@ Section Sim.
     assert (H1 : Ninv m1).
     { unfold m1, Ninv. msimpl. apply (Forall_upd_nth_at Pn id _ (m_nodes m) (default_node (sp_state (ci_root inp)))); [|exact H].
       intros Hlt. unfold Ninv in H. rewrite Forall_forall in H.
-      destruct (H (gn m id)) as [P1 P2]; [apply nth_In; exact Hlt|].
-      split; [exact P1|right; reflexivity]. }
+      destruct (H (gn m id)) as (P1 & P2 & P3); [apply nth_In; exact Hlt|].
+      split; [exact P1|]. split; [exact P2|right; reflexivity]. }
     destruct (_ >? _)%Z; [|exact H1].
     apply Ninv_fold; [intros; apply Ninv_branch_on; assumption|].
     eapply Ninv_same; [|exact H1]. reflexivity.
@@ -2130,8 +2588,9 @@ Section Sim.
     - specialize (IH m). destruct (dom_retain inp m l) as [m2 r]. simpl in *. exact IH.
   Qed.
 
-  Lemma Pn_set_flag (n : node) fl : f_cutset fl = f_cutset (n_flags n) -> Pn n -> Pn (set_flags n fl).
-  Proof. intros Hf [P1 P2]. split; nsimpl; [congruence|exact P2]. Qed.
+  Lemma Pn_set_flag (n : node) fl :
+    f_cutset fl = f_cutset (n_flags n) -> f_marked fl = f_marked (n_flags n) -> Pn n -> Pn (set_flags n fl).
+  Proof. intros Hf Hg (P1 & P2 & P3). split; [|split]; nsimpl; [congruence|congruence|exact P3]. Qed.
 
   Lemma Ninv_note_squash (m : mdd) : Ninv m -> Ninv (note_squash inp m).
   Proof. intros H. eapply Ninv_same; [|exact H]. apply (note_squash_fields inp Hclean m). Qed.
@@ -2143,7 +2602,7 @@ Section Sim.
   Proof.
     intros H. unfold drop_step. rewrite redirect_edges_fold.
     apply Ninv_fold; [intros; apply Ninv_redirect_step; assumption|].
-    apply Ninv_upd; [|exact H]. intros n Hn. apply Pn_set_flag; [reflexivity|exact Hn].
+    apply Ninv_upd; [|exact H]. intros n Hn. apply Pn_set_flag; [reflexivity|reflexivity|exact Hn].
   Qed.
 
   Lemma Ninv_squash (m : mdd) l : Ninv m -> Ninv (fst (squash_if_needed st_eqb inp m l)).
@@ -2157,15 +2616,15 @@ Section Sim.
       match goal with |- context [add_log m0 ?ev] => set (m1 := add_log m0 ev) end.
       assert (H1 : Ninv m1) by (eapply Ninv_same; [|exact H0]; reflexivity).
       match goal with |- context [find ?f ?k] => destruct (find f k) as [rid|] end; cbn [fst].
-      + apply Ninv_upd; [intros n Hn; apply Pn_set_flag; [reflexivity|exact Hn]|].
+      + apply Ninv_upd; [intros n Hn; apply Pn_set_flag; [reflexivity|reflexivity|exact Hn]|].
         apply Ninv_fold; [intros; apply Ninv_drop_step; assumption|].
-        apply Ninv_upd; [intros n Hn; apply Pn_set_flag; [reflexivity|exact Hn]|exact H1].
+        apply Ninv_upd; [intros n Hn; apply Pn_set_flag; [reflexivity|reflexivity|exact Hn]|exact H1].
       + apply Ninv_fold; [intros; apply Ninv_drop_step; assumption|].
-        apply Ninv_upd; [intros n Hn; apply Pn_set_flag; [reflexivity|exact Hn]|].
-        apply Ninv_snoc; [|exact H1]. split; [reflexivity|left; reflexivity].
+        apply Ninv_upd; [intros n Hn; apply Pn_set_flag; [reflexivity|reflexivity|exact Hn]|].
+        apply Ninv_snoc; [|exact H1]. split; [reflexivity|split; [reflexivity|left; reflexivity]].
     - destruct (_ <? _); [|exact H]. unfold restrict_layer. cbv zeta. cbn [fst].
       unfold mark_deleted. apply Ninv_fold; [|apply Ninv_note_squash; exact H].
-      intros a x Ha. apply Ninv_upd; [|exact Ha]. intros n Hn. apply Pn_set_flag; [reflexivity|exact Hn].
+      intros a x Ha. apply Ninv_upd; [|exact Ha]. intros n Hn. apply Pn_set_flag; [reflexivity|reflexivity|exact Hn].
   Qed.
 
   Lemma Ninv_move (m : mdd) : Ninv m -> Ninv (fst (move_to_next_layer_clean st_eqb inp m)).
@@ -2199,7 +2658,7 @@ Section Sim.
   Qed.
 
   Lemma Ninv_initialize c ds polls : Ninv (initialize inp c ds polls).
-  Proof. constructor; [|constructor]. split; [reflexivity|left; reflexivity]. Qed.
+  Proof. constructor; [|constructor]. split; [reflexivity|split; [reflexivity|left; reflexivity]]. Qed.
 
   (* ================================================================== 5. _compute_local_bounds along a diagram path *)
   Definition lb_upd (using_edge : Z) (p : node) : node :=
@@ -2688,7 +3147,7 @@ Section Sim.
     let m3 := finalize_exact inp (find_best_node inp tb tb2 (finalize_layers inp ml)) in
     m_nodes m3 = m_nodes ml /\ m_edges m3 = m_edges ml /\
     m_layers m3 = m_layers (finalize_layers inp ml) /\ m_lel m3 = m_lel ml /\ m_cutset m3 = m_cutset ml /\
-    Sinv inp m3 /\ Xs inp m3.
+    Sinv inp m3 /\ Xs inp m3 /\ peq inp ml m3.
   Proof.
     intros HS HX. cbv zeta.
     destruct (finalize_layers_spec inp Hclean ml HS HX) as (S1 & X1 & P1 & N1).
@@ -2700,9 +3159,10 @@ Section Sim.
     split.
     { change (m_cutset (finalize_layers inp ml) = m_cutset ml). unfold finalize_layers. cbv zeta.
       rewrite (not_pooled inp Hclean). destruct (m_next ml); reflexivity. }
-    split.
+    split; [|split].
     - eapply (Sinv_peq inp Hclean); [exact P3| |exact S1]. intros id Hid. apply (S_next _ _ S1). exact Hid.
     - eapply Xg_peq; [exact P3|reflexivity|reflexivity|reflexivity|exact X1].
+    - eapply peq_trans; eauto.
   Qed.
 
   (* ---------------------------------------------------------------- the cut-set node met by a tracked path *)
@@ -2723,7 +3183,7 @@ Section Sim.
       dpath ml (length ds1) c sc ds2 u s' /\ is_ex ml c = true /\ In c (m_cutset m4).
   Proof.
     intros Ht HS HX HN HE Hlel Hlen Hu Hur Hp Hxu. cbv zeta.
-    destruct (pipe3 tb tb2 ml HS HX) as (G1 & G2 & G3 & G4 & G5 & S3 & X3). cbv zeta in G1, G2, G3, G4, G5, S3, X3.
+    destruct (pipe3 tb tb2 ml HS HX) as (G1 & G2 & G3 & G4 & G5 & S3 & X3 & Pl3). cbv zeta in G1, G2, G3, G4, G5, S3, X3, Pl3.
     set (m3 := finalize_exact inp (find_best_node inp tb tb2 (finalize_layers inp ml))) in *.
     destruct (finalize_layers_fields ml) as (_ & _ & _ & _ & F5).
     assert (Hly3 : m_layers m3 = m_layers ml ++ [seq (m_layer_end ml) (length (m_nodes ml) - m_layer_end ml)]).
@@ -2799,7 +3259,7 @@ Section Sim.
     destruct (cut_node tb tb2 ml k ds u s' Ht HS HX HN HE Hlel) as (ds1 & ds2 & c & sc & E & Hne & P1 & P2 & Xc & Hcut); auto.
     { lia. }
     cbv zeta in Hcut.
-    destruct (pipe3 tb tb2 ml HS HX) as (G1 & G2 & G3 & G4 & G5 & S3 & X3). cbv zeta in G1, G2, G3, G4, G5, S3, X3.
+    destruct (pipe3 tb tb2 ml HS HX) as (G1 & G2 & G3 & G4 & G5 & S3 & X3 & Pl3). cbv zeta in G1, G2, G3, G4, G5, S3, X3, Pl3.
     set (m3 := finalize_exact inp (find_best_node inp tb tb2 (finalize_layers inp ml))) in *.
     set (m4 := finalize_cutset inp m3) in *.
     set (m5 := compute_local_bounds inp m4).
@@ -2838,7 +3298,6 @@ Section Sim.
     (* transfer to the finalized diagram *)
     destruct (finalize_cutset_spec inp Hclean m3 S3 X3) as [B34 _]. fold m4 in B34.
     destruct B34 as (P34 & _).
-    assert (Pl3 : peq inp ml m3) by (apply peq_same_nodes; [exact G1|exact G2|reflexivity]).
     assert (Pl4 : peq inp ml m4) by (eapply peq_trans; eauto).
     destruct (finalize_layers_fields ml) as (_ & _ & _ & _ & F5).
     assert (Hly4 : m_layers m4 = m_layers ml ++ [seq (m_layer_end ml) (length (m_nodes ml) - m_layer_end ml)]).
@@ -2876,8 +3335,502 @@ Section Sim.
     - rewrite Hrb. apply sat_add_ge; [exact Hiso_o|].
       assert (Hhr : (h <= n_rub (gn ml c))%Z).
       { unfold Ninv in HN. rewrite Forall_forall in HN.
-        destruct (HN (gn ml c)) as [_ [Q|Q]]; [apply nth_In; exact Hclen| |].
+        destruct (HN (gn ml c)) as (_ & _ & [Q|Q]); [apply nth_In; exact Hclen| |].
         - rewrite Q. lia.
         - rewrite Q. apply (rub_adm (rd + length ds1) _ sc h); [rewrite Hsc; apply cov_refl|exact Hh]. }
       lia.
   Qed.
+
+  Lemma finalize_rub tb tb2 (ml : mdd) x :
+    n_rub (gn (finalize st_eqb inp tb tb2 ml) x) = n_rub (gn ml x).
+  Proof.
+    unfold finalize.
+    rewrite (node_compute_thresholds (@n_rub St)) by reflexivity.
+    rewrite (node_compute_local_bounds (@n_rub St)) by reflexivity.
+    rewrite (node_finalize_cutset (@n_rub St)) by reflexivity.
+    apply f_equal. apply gn_nodes_eq. apply (finalize_layers_fields ml).
+  Qed.
+
+  Lemma compile_post2 tb tb2 c ds polls m :
+    compile st_eqb inp tb tb2 c ds polls = (m, Compiled) ->
+    exists ml, m = finalize st_eqb inp tb tb2 ml /\ Sinv inp ml /\ Xs inp ml /\ Post ml /\ Ninv ml.
+  Proof.
+    unfold compile. cbv zeta. intros H.
+    pose proof (layer_loop_Sinv st_eqb st_eqb_spec inp Hclean (S (S (nb_vars (ci_problem inp)))) c ds polls) as [HS HX].
+    pose proof (layer_loop_Ninv (S (S (nb_vars (ci_problem inp)))) (initialize inp c ds polls) (Ninv_initialize c ds polls)) as HN.
+    destruct (layer_loop st_eqb inp (S (S (nb_vars (ci_problem inp)))) (initialize inp c ds polls)) as [ml e] eqn:El.
+    cbn [fst] in HS, HX, HN. destruct e; inversion H. exists ml.
+    split; [reflexivity|]. split; [exact HS|]. split; [exact HX|]. split; [|exact HN].
+    eapply layer_loop_sim; [apply Linv_initialize|exact El].
+  Qed.
+
+  (* S4 (K4, C08 iv), strengthened: the covering cut-set node also carries a valid upper bound *)
+  Theorem S4_cutset_covers tb tb2 c ds polls m o :
+    compile st_eqb inp tb tb2 c ds polls = (m, Compiled) ->
+    ci_type inp = Relaxed -> dd_is_exact m = false -> vstar = Some o -> (o > lb)%Z ->
+    (forall e, dd_best_exact_value inp m = Some e -> (e < o)%Z) ->
+    exists sp, In sp (drain_cutset inp m) /\
+      oadd (sp_value sp) (H pb (sp_depth sp) (sp_state sp)) = Some o /\ (o <= sp_ub sp)%Z.
+  Proof.
+    intros Hc Ht Hnex Hv Hlb Hbe.
+    destruct (S1_relaxed_upper_bound _ _ _ _ _ _ _ Hc (or_introl Ht) Hv Hlb) as (bv & Hbv & Hbvo).
+    destruct (compile_post2 _ _ _ _ _ _ Hc) as (ml & -> & HS & HX & HP & HN).
+    destruct (S4_core tb tb2 ml o Ht HS HX HN HP Hv ltac:(lia) Hnex Hbe) as (cn & Hin & Hmk & Hbest & Hlocb & Hrub).
+    set (m := finalize st_eqb inp tb tb2 ml) in *.
+    set (n := gn m cn) in *.
+    exists {| sp_state := n_state n; sp_value := n_vtop n; sp_path := best_path inp m cn;
+              sp_ub := Z.min (Z.min (sat_add (n_vtop n) (n_rub n)) (sat_add (n_vtop n) (n_vbot n))) bv;
+              sp_depth := n_depth n |}.
+    split; [|split].
+    - unfold drain_cutset. rewrite Hbv. apply in_flat_map. exists cn. split; [exact Hin|].
+      cbv zeta. fold n. rewrite Hmk. left; reflexivity.
+    - exact Hbest.
+    - cbn [sp_ub]. lia.
+  Qed.
+
+  (* S3 (K3_ub, C08 iii), first two components: for every cut-set node the rough-bound component and
+     the best-value component of its upper bound are valid (the local-bound component is added in
+     S3_cutset_ub below, which needs the tracking from every expanded node). *)
+  Theorem S3_cutset_ub_components tb tb2 c ds polls m sp o :
+    compile st_eqb inp tb tb2 c ds polls = (m, Compiled) ->
+    ci_type inp = Relaxed ->
+    In sp (drain_cutset inp m) ->
+    oadd (sp_value sp) (H pb (sp_depth sp) (sp_state sp)) = Some o -> (o > lb)%Z ->
+    exists id bv, In id (m_cutset m) /\ dd_best_value inp m = Some bv /\
+      sp_ub sp = Z.min (Z.min (sat_add (n_vtop (gn m id)) (n_rub (gn m id)))
+                              (sat_add (n_vtop (gn m id)) (n_vbot (gn m id)))) bv /\
+      (o <= sat_add (n_vtop (gn m id)) (n_rub (gn m id)))%Z /\ (o <= bv)%Z /\
+      f_marked (n_flags (gn m id)) = true /\ sp_state sp = n_state (gn m id) /\
+      sp_value sp = n_vtop (gn m id) /\ sp_depth sp = n_depth (gn m id).
+  Proof.
+    intros Hc Ht Hsp Ho Hlb.
+    destruct (compile_post2 _ _ _ _ _ _ Hc) as (ml & Em & HS & HX & HP & HN).
+    destruct (finalize_spec st_eqb inp Hclean tb tb2 ml HS HX) as ((_ & _ & L & A4) & _ & HSm & _ & _ & F6 & _).
+    rewrite <- Em in L, A4, HSm, F6.
+    unfold drain_cutset in Hsp. destruct (dd_best_value inp m) as [bv|] eqn:Ebv; [|destruct Hsp].
+    apply in_flat_map in Hsp. destruct Hsp as (id & Hid & Hsp). cbv zeta in Hsp.
+    destruct (f_marked (n_flags (gn m id))) eqn:Emk; [|destruct Hsp].
+    destruct Hsp as [<-|[]]. cbn [sp_ub sp_state sp_value sp_depth] in *.
+    destruct (F6 id Hid) as [Hidlt Hex].
+    pose proof (Sinv_exact_flag_clean_chain inp m HSm id Hidlt Hex) as Hcc.
+    destruct (clean_chain_frun m id HSm Hcc Hidlt) as (dsc & Hrc & Hdepc).
+    destruct (H pb (n_depth (gn m id)) (n_state (gn m id))) as [h|] eqn:Eh; [|discriminate].
+    simpl in Ho. inversion Ho; subst o. clear Ho.
+    assert (Hdle : rd + length dsc <= N).
+    { destruct (Nat.le_gt_cases (rd + length dsc) N) as [Hl|Hg]; [exact Hl|]. exfalso.
+      destruct (rev dsc) as [|dl r] eqn:Er.
+      - assert (dsc = []) by (rewrite <- (rev_involutive dsc), Er; reflexivity). subst dsc. simpl in Hg. lia.
+      - assert (Ed : dsc = rev r ++ [dl]) by (rewrite <- (rev_involutive dsc), Er; reflexivity).
+        rewrite Ed in Hrc. rewrite frun_app in Hrc.
+        destruct (frn rd rs rv (rev r)) as [[s1 v1]|]; [|discriminate].
+        cbn [frun] in Hrc. rewrite Ed, app_length in Hg. simpl in Hg.
+        assert (Hv0 : var_ok pb (rd + length (rev r)) dl = false).
+        { unfold var_ok. rewrite nv_none by lia. reflexivity. }
+        rewrite Hv0 in Hrc. discriminate. }
+    rewrite Hdepc in Eh.
+    pose proof (prefix_isize _ _ _ _ Hrc Hdle Eh) as Hiso.
+    destruct (H_attained pb nv_static nv_some nv_none (N - (rd + length dsc)) (rd + length dsc) _
+                (n_vtop (gn m id)) h eq_refl Hdle Eh) as (dsx & sx & Hrx & Hlx).
+    assert (Hfull : frn rd rs rv (dsc ++ dsx) = Some (sx, (n_vtop (gn m id) + h)%Z)).
+    { rewrite frun_app, Hrc. exact Hrx. }
+    destruct (frun_le_H pb nv_static nv_none (dsc ++ dsx) rd rs rv sx _ ltac:(rewrite app_length; lia) Hfull)
+      as (h0 & Hh0 & Hle0).
+    assert (Hvs : vstar = Some (rv + h0)%Z) by (unfold vstar; rewrite Hh0; reflexivity).
+    destruct (S1_relaxed_upper_bound _ _ _ _ _ _ _ Hc (or_introl Ht) Hvs ltac:(lia)) as (bv' & Hbv' & Hbvo).
+    rewrite Ebv in Hbv'. inversion Hbv'; subst bv'.
+    exists id, bv. split; [exact Hid|]. split; [reflexivity|]. split; [reflexivity|].
+    split; [|split; [lia|repeat split; auto]].
+    apply sat_add_ge; [exact Hiso|].
+    assert (Hr : (h <= n_rub (gn m id))%Z).
+    { rewrite Em, finalize_rub. rewrite Em in Hidlt. rewrite <- Em in Hidlt. rewrite L in Hidlt.
+      destruct (A4 id) as (a1 & _).
+      unfold Ninv in HN. rewrite Forall_forall in HN.
+      destruct (HN (gn ml id)) as (_ & _ & [Q|Q]); [apply nth_In; exact Hidlt| |].
+      - rewrite Q. destruct (Hguard _ _ _ Hrc) as [Q1 Q2]. destruct (Hguard _ _ _ Hfull) as [Q3 Q4]. lia.
+      - rewrite Q, a1. apply (rub_adm (rd + length dsc) _ (n_state (gn m id)) h); [apply cov_refl|exact Eh]. }
+    lia.
+  Qed.
+  (* ================================================================== 8. S3 in full: the local bound of EVERY cut-set node *)
+  Lemma marked_upd (a : mdd) p u x :
+    f_marked (n_flags (gn (upd_node a p (lb_upd u)) x)) = true ->
+    (x = p /\ p < length (m_nodes a)) \/ f_marked (n_flags (gn a x)) = true.
+  Proof.
+    intros H. destruct (Nat.eq_dec p x) as [->|Hne].
+    - destruct (Nat.lt_ge_cases x (length (m_nodes a))) as [Hlt|Hge]; [left; auto|].
+      rewrite gn_upd_out in H by exact Hge. right; exact H.
+    - rewrite gn_upd_other in H by exact Hne. right; exact H.
+  Qed.
+
+  Lemma marked_src (m : mdd) :
+    Sinv inp m -> (forall x, f_marked (n_flags (gn m x)) = false) ->
+    forall x, f_marked (n_flags (gn (compute_local_bounds inp m) x)) = true ->
+    In x (last (m_layers m) []) \/ Src m x.
+  Proof.
+    intros HS H0 x Hx. rewrite compute_local_bounds_unfold in Hx.
+    destruct (lb_go m); [|rewrite H0 in Hx; discriminate].
+    set (Q := fun a : mdd => Stat m a /\
+              forall y, f_marked (n_flags (gn a y)) = true -> In y (last (m_layers m) []) \/ Src m y).
+    assert (Q0 : Q (lb_init m)).
+    { unfold lb_init.
+      apply (fold_left_inv Q).
+      - split; [apply Stat_refl|]. intros y Hy. rewrite H0 in Hy. discriminate.
+      - intros a id Hid (Sa & Ma). split.
+        + eapply Stat_trans; [exact Sa|]. apply Stat_upd. reflexivity.
+        + intros y Hy. destruct (Nat.eq_dec id y) as [->|Hne].
+          * left. exact Hid.
+          * rewrite gn_upd_other in Hy by exact Hne. apply Ma. exact Hy. }
+    assert (Qstep : forall a id, Q a -> Q (lb_step a id)).
+    { intros a id (Sa & Ma). unfold lb_step. cbv zeta.
+      destruct (f_marked (n_flags (gn a id))); [|split; assumption].
+      pose proof Sa as (Se & _ & Sl & Si).
+      assert (Hin : forall eid, In eid (n_inb (gn a id)) -> eid < length (m_edges m)).
+      { intros eid He. rewrite Si in He.
+        destruct (Nat.lt_ge_cases id (length (m_nodes m))) as [Hlt|Hge].
+        - apply (S_nodes _ _ HS id Hlt). exact He.
+        - rewrite (gn_out_of_range inp m id Hge) in He. destruct He. }
+      apply (fold_left_inv Q).
+      - split; assumption.
+      - intros b eid He (Sb & Mb). split.
+        + eapply Stat_trans; [exact Sb|]. apply Stat_upd. reflexivity.
+        + intros y Hy. apply marked_upd in Hy. destruct Hy as [[-> _]|Hy]; [|apply Mb; exact Hy].
+          right. exists eid. split; [apply Hin; exact He|]. rewrite (Stat_edge m b eid Sb). reflexivity. }
+    assert (Qall : Q (fold_left lb_step (bottom_up m) (lb_init m))).
+    { apply fold_left_inv2; [exact Q0|]. intros a y Ha. apply Qstep. exact Ha. }
+    apply Qall. exact Hx.
+  Qed.
+
+  Lemma flag_finalize_cutset (h : flags -> bool) (m : mdd) x :
+    (forall f b, h (fl_set_above f b) = h f) -> (forall f b, h (fl_set_cutset f b) = h f) ->
+    h (n_flags (gn (finalize_cutset inp m) x)) = h (n_flags (gn m x)).
+  Proof.
+    intros Ha Hc.
+    set (g := fun n : node => h (n_flags n)).
+    assert (U1 : forall (a : mdd) k, g (gn (upd_node a k (fun n => set_flags n (fl_set_above (n_flags n) true))) x) = g (gn a x)).
+    { intros a k. apply (get_node_upd_node_proj inp g). intros n. unfold g. nsimpl. apply Ha. }
+    assert (U2 : forall (a : mdd) k, g (gn (upd_node a k (fun n => set_flags n (fl_set_cutset (n_flags n) true))) x) = g (gn a x)).
+    { intros a k. apply (get_node_upd_node_proj inp g). intros n. unfold g. nsimpl. apply Hc. }
+    assert (U3 : forall (a : mdd) k, g (gn (upd_node a k (fun n => set_flags n (fl_set_above (fl_set_cutset (n_flags n) true) true))) x) = g (gn a x)).
+    { intros a k. apply (get_node_upd_node_proj inp g). intros n. unfold g. nsimpl. rewrite Ha. apply Hc. }
+    assert (L1 : forall (a : mdd) j, g (gn (lel_cutset a j) x) = g (gn a x)).
+    { intros a j. unfold lel_cutset.
+      rewrite (fold_left_proj (fun b : mdd => g (gn b x))) by (intros b id; apply U1).
+      destruct (nth_error _ _); [|reflexivity].
+      change (g (gn (fold_left (fun m0 id => upd_node m0 id (fun n => set_flags n (fl_set_above (fl_set_cutset (n_flags n) true) true))) l a) x) = g (gn a x)).
+      apply (fold_left_proj (fun b : mdd => g (gn b x))). intros b id. apply U3. }
+    assert (L2 : forall (a : mdd) push, g (gn (frontier_cutset inp a push) x) = g (gn a x)).
+    { intros a push. unfold frontier_cutset. apply (fold_left_proj (fun b : mdd => g (gn b x))). intros b id.
+      destruct (fl_is_exact _); [apply U1|].
+      apply (fold_left_proj (fun c : mdd => g (gn c x))). intros c eid. cbv zeta.
+      destruct (_ && _); [|reflexivity]. destruct push; rewrite U2; reflexivity. }
+    change (g (gn (finalize_cutset inp m) x) = g (gn m x)).
+    unfold finalize_cutset. cbv zeta.
+    destruct (ci_flavour inp); destruct (m_lel m); destruct (_ || _); rewrite ?L1, ?L2; reflexivity.
+  Qed.
+
+  Lemma frontier_cutset_src (m : mdd) :
+    Sinv inp m ->
+    (forall x, x < length (m_nodes m) -> f_cutset (n_flags (gn m x)) = true -> In x (m_cutset m)) ->
+    forall c, In c (m_cutset (frontier_cutset inp m true)) -> In c (m_cutset m) \/ Src m c.
+  Proof.
+    intros HS H0. rewrite frontier_cutset_unfold.
+    set (Q := fun a : mdd => FInv m a /\ forall c, In c (m_cutset a) -> In c (m_cutset m) \/ Src m c).
+    assert (HF0 : FInv m m) by (repeat split; auto).
+    assert (G : Q (fold_left fc_step (bottom_up m) m)).
+    { apply fold_left_inv2; [split; [exact HF0|intros c Hc; left; exact Hc]|].
+      intros a id (Fa & Ca). unfold fc_step. cbv zeta. destruct (fl_is_exact _).
+      - split; [apply FInv_upd_above; exact Fa|exact Ca].
+      - pose proof Fa as (_ & _ & F3 & _). destruct (F3 id) as [Hi _].
+        assert (Hin : forall eid, In eid (n_inb (gn a id)) -> eid < length (m_edges m)).
+        { intros eid He. rewrite Hi in He.
+          destruct (Nat.lt_ge_cases id (length (m_nodes m))) as [Hlt|Hge].
+          - apply (S_nodes _ _ HS id Hlt). exact He.
+          - rewrite (gn_out_of_range inp m id Hge) in He. destruct He. }
+        apply (fold_left_inv Q).
+        + split; assumption.
+        + intros b eid He (Fb & Cb). split; [apply (FInv_fc_inner m b eid Fb)|].
+          pose proof Fb as (G1 & _).
+          intros c Hc. unfold fc_inner in Hc. cbv zeta in Hc.
+          destruct (_ && _); [|apply Cb; exact Hc].
+          msimpl_in Hc. apply in_app_or in Hc. destruct Hc as [Hc|[<-|[]]]; [apply Cb; exact Hc|].
+          right. exists eid. split; [apply Hin; exact He|]. rewrite (ge_edges_eq m b eid G1). reflexivity. }
+    apply G.
+  Qed.
+
+  Lemma locb_from_path tb tb2 (ml : mdd) k i c sc vc ds2 u s' o :
+    ci_type inp = Relaxed -> Sinv inp ml -> Xs inp ml -> m_lel ml = Some k ->
+    length (m_layers ml) = i + length ds2 -> In u (m_next ml) ->
+    m_layer_end ml <= u < length (m_nodes ml) ->
+    dpath ml i c sc ds2 u s' -> frn (rd + i) sc vc ds2 = Some (s', o) ->
+    (forall da db s1 v1, ds2 = da ++ db -> frn (rd + i) sc vc da = Some (s1, v1) -> in_isize (o - v1)) ->
+    f_marked (n_flags (gn (finalize st_eqb inp tb tb2 ml) c)) = true /\
+    (o - vc <= n_vbot (gn (finalize st_eqb inp tb tb2 ml) c))%Z.
+  Proof.
+    intros Ht HS HX Hlel Hlen Hu Hur P2 Hrun Hiso.
+    destruct (pipe3 tb tb2 ml HS HX) as (G1 & G2 & G3 & G4 & G5 & S3 & X3 & Pl3). cbv zeta in G1, G2, G3, G4, G5, S3, X3, Pl3.
+    set (m := finalize st_eqb inp tb tb2 ml).
+    set (m3 := finalize_exact inp (find_best_node inp tb tb2 (finalize_layers inp ml))) in *.
+    set (m4 := finalize_cutset inp m3) in *.
+    set (m5 := compute_local_bounds inp m4).
+    assert (Em : m = compute_thresholds st_eqb inp m5) by reflexivity.
+    destruct (finalize_cutset_spec inp Hclean m3 S3 X3) as [B34 _]. fold m4 in B34.
+    destruct B34 as (P34 & _).
+    assert (Pl4 : peq inp ml m4) by (eapply peq_trans; eauto).
+    destruct (finalize_layers_fields ml) as (_ & _ & _ & _ & F5).
+    assert (Hly4 : m_layers m4 = m_layers ml ++ [seq (m_layer_end ml) (length (m_nodes ml) - m_layer_end ml)]).
+    { unfold m4. rewrite finalize_cutset_layers, G3, F5. destruct (m_next ml); [destruct Hu|reflexivity]. }
+    assert (P2' : dpath m4 i c sc ds2 u s').
+    { eapply dpath_peq; [exact Pl4| |exact P2]. intros j x. rewrite Hly4. apply nth_layers_app. }
+    assert (Hgo4 : lb_go m4 = true).
+    { unfold lb_go. rewrite Ht. unfold m4. rewrite (lel_finalize_cutset m3 k) by (rewrite G4; exact Hlel).
+      fold m4. rewrite Hly4, app_length. cbn [opt_default length is_relaxed_ct].
+      pose proof (X_lel_lt _ _ _ HX Ht k Hlel). rewrite andb_true_r. apply Nat.ltb_lt. lia. }
+    destruct (local_bounds_path m4 i c sc ds2 u s' (rd + i) vc o Hgo4 P2' Hrun) as [M1 M2].
+    { rewrite Hly4, app_length. simpl. lia. }
+    { rewrite Hly4, last_last. apply in_seq. lia. }
+    { exact Hiso. }
+    fold m5 in M1, M2. split.
+    - rewrite Em. rewrite (node_compute_thresholds (fun n => f_marked (n_flags n))) by reflexivity. exact M1.
+    - rewrite Em. rewrite (node_compute_thresholds (@n_vbot St)) by reflexivity. exact M2.
+  Qed.
+
+  (* S3 (K3_ub, C08 iii) in full *)
+  Theorem S3_cutset_ub tb tb2 c ds polls m sp o :
+    compile st_eqb inp tb tb2 c ds polls = (m, Compiled) ->
+    ci_type inp = Relaxed -> dd_is_exact m = false ->
+    In sp (drain_cutset inp m) ->
+    oadd (sp_value sp) (H pb (sp_depth sp) (sp_state sp)) = Some o -> (o > lb)%Z ->
+    (o <= sp_ub sp)%Z.
+  Proof.
+    intros Hc Ht Hnex Hsp Ho Hlb.
+    destruct (S3_cutset_ub_components tb tb2 c ds polls m sp o Hc Ht Hsp Ho Hlb)
+      as (id & bv & Hid & Hbv & Hub & Hrubp & Hbvp & Hmk & Est & Evl & Edp).
+    rewrite Hub. rewrite Est, Evl, Edp in Ho.
+    destruct (compile_post2 _ _ _ _ _ _ Hc) as (ml & Em & HS & HX & HP & HN).
+    destruct HP as (HPa & HPb & HUP & HSL & HXn).
+    destruct (finalize_spec st_eqb inp Hclean tb tb2 ml HS HX) as ((_ & _ & L & A4) & _ & HSm & _ & _ & F6 & _).
+    rewrite <- Em in L, A4, HSm, F6.
+    destruct (finalize_hdr tb tb2 ml) as (H1 & H2 & H3 & H4). cbv zeta in H1, H2, H3, H4. rewrite <- Em in H1, H2, H3, H4.
+    unfold dd_is_exact in Hnex. apply orb_false_iff in Hnex. destruct Hnex as [Hnx Hebp].
+    rewrite Hnx in H1. destruct (m_lel ml) as [k|] eqn:Hlel; [|discriminate].
+    assert (Hen : enabled ml) by (intros E; rewrite Ht in E; discriminate).
+    (* the next layer of the loop was not empty *)
+    assert (Hnn : m_next ml <> []).
+    { unfold dd_best_value in Hbv. rewrite H3 in Hbv.
+      destruct (pick tb (argmax_candidates inp (finalize_layers inp ml) (m_next ml))) as [b|] eqn:Eb; [|discriminate].
+      apply pick_In in Eb. apply (argmax_candidates_In inp Hclean) in Eb.
+      intros E. rewrite E in Eb. destruct Eb. }
+    pose proof (HXn Hnn) as HXi.
+    destruct (F6 id Hid) as [Hidlt Hex].
+    pose proof (Sinv_exact_flag_clean_chain inp m HSm id Hidlt Hex) as Hcc.
+    destruct (clean_chain_frun m id HSm Hcc Hidlt) as (dsc & Hrc & Hdepc).
+    destruct (A4 id) as (a1 & a2 & _ & _ & _ & _ & a7).
+    (* the pipeline *)
+    destruct (pipe3 tb tb2 ml HS HX) as (G1 & G2 & G3 & G4 & G5 & S3 & X3 & Pl3). cbv zeta in G1, G2, G3, G4, G5, S3, X3, Pl3.
+    set (m3 := finalize_exact inp (find_best_node inp tb tb2 (finalize_layers inp ml))) in *.
+    set (m4 := finalize_cutset inp m3) in *.
+    set (m5 := compute_local_bounds inp m4).
+    assert (Emm : m = compute_thresholds st_eqb inp m5) by (rewrite Em; reflexivity).
+    assert (Hgn3 : forall x, gn m3 x = gn ml x) by (intros x; apply gn_nodes_eq; exact G1).
+    destruct (finalize_layers_fields ml) as (_ & _ & _ & _ & F5).
+    assert (Hly3 : m_layers m3 = m_layers ml ++ [seq (m_layer_end ml) (length (m_nodes ml) - m_layer_end ml)]).
+    { rewrite G3, F5. destruct (m_next ml); [congruence|reflexivity]. }
+    (* the cut-set node is the source of an arc *)
+    assert (HSrc : Src ml id).
+    { assert (Hcs : m_cutset m = m_cutset m4).
+      { destruct (compute_local_bounds_keq inp Hclean m4) as (_ & _ & _ & _ & K5). fold m5 in K5.
+        destruct (compute_thresholds_keq st_eqb inp m5) as (_ & _ & _ & _ & K6). rewrite Emm. congruence. }
+      rewrite Hcs in Hid.
+      assert (Hsrc3 : forall x, Src m3 x -> Src ml x).
+      { intros x (eid & E1 & E2). exists eid. rewrite G2 in E1. rewrite (ge_edges_eq ml m3 eid G2) in E2. auto. }
+      destruct Hclean as [Hf|Hf].
+      - (* last exact layer: the node lies in layer k, hence not in the last layer *)
+        unfold m4, finalize_cutset in Hid. cbv zeta in Hid. rewrite Hf, G4, Hlel, Ht in Hid.
+        cbn [is_relaxed_ct orb opt_default] in Hid. rewrite G4, Hlel in Hid. cbn [opt_default] in Hid.
+        destruct (lel_cutset_spec inp m3 k) as [_ Hcs3]. rewrite Hcs3, G5 in Hid.
+        rewrite (X_cutset _ _ _ HX) in Hid. simpl in Hid.
+        pose proof (X_lel_lt _ _ _ HX Ht k Hlel) as Hk.
+        rewrite <- G3, Hly3, nth_error_app1 in Hid by exact Hk.
+        destruct (nth_error (m_layers ml) k) as [ids|] eqn:Enk; [|destruct Hid].
+        assert (Hidl : id < m_layer_end ml).
+        { apply (X_layers _ _ _ HXi ids id); [eapply nth_error_In; eauto|exact Hid]. }
+        assert (Hm5 : f_marked (n_flags (gn m5 id)) = true).
+        { rewrite Emm in Hmk. rewrite (node_compute_thresholds (fun n => f_marked (n_flags n))) in Hmk by reflexivity. exact Hmk. }
+        assert (S4' : Sinv inp m4).
+        { destruct (finalize_cutset_spec inp Hclean m3 S3 X3) as [(P34 & N34 & _) _]. fold m4 in P34, N34.
+          eapply (Sinv_peq inp Hclean); [exact P34| |exact S3].
+          intros y Hy. rewrite N34 in Hy. destruct P34 as (_ & _ & L34 & _). rewrite L34. apply (S_next _ _ S3). exact Hy. }
+        destruct (marked_src m4 S4') with (x := id) as [Hl|Hs].
+        + intros x. unfold m4. rewrite (flag_finalize_cutset f_marked) by (intros; reflexivity).
+          rewrite Hgn3.
+          destruct (Nat.lt_ge_cases x (length (m_nodes ml))) as [Hlt|Hge].
+          * unfold Ninv in HN. rewrite Forall_forall in HN. apply (HN (gn ml x)). apply nth_In. exact Hlt.
+          * rewrite (gn_out_of_range inp ml x Hge). reflexivity.
+        + exact Hm5.
+        + exfalso. unfold m4 in Hl. rewrite finalize_cutset_layers, Hly3, last_last in Hl. apply in_seq in Hl. lia.
+        + apply Hsrc3. destruct Hs as (eid & E1 & E2).
+          destruct (finalize_cutset_spec inp Hclean m3 S3 X3) as [((Pe & _) & _) _]. fold m4 in Pe.
+          exists eid. rewrite Pe in E1. rewrite (ge_edges_eq m3 m4 eid Pe) in E2. auto.
+      - unfold m4, finalize_cutset in Hid. cbv zeta in Hid. rewrite Hf, G4, Hlel, Ht in Hid.
+        cbn [is_relaxed_ct orb] in Hid.
+        destruct (frontier_cutset_src m3 S3) with (c := id) as [Hc0|Hs]; [|exact Hid| |apply Hsrc3; exact Hs].
+        + intros x Hx Hcx. exfalso. rewrite Hgn3 in Hcx. rewrite G1 in Hx.
+          unfold Ninv in HN. rewrite Forall_forall in HN.
+          destruct (HN (gn ml x)) as [Q _]; [apply nth_In; exact Hx|]. congruence.
+        + rewrite G5, (X_cutset _ _ _ HX) in Hc0. destruct Hc0. }
+    destruct (HSL id HSrc) as (i & Hil & Hdi).
+    assert (Hli : length dsc = i) by lia.
+    assert (HSt : Start i (n_state (gn m id)) (n_vtop (gn m id))) by (exists dsc; auto).
+    destruct (H pb (n_depth (gn m id)) (n_state (gn m id))) as [h|] eqn:Eh; [|discriminate].
+    simpl in Ho. inversion Ho; subst o. clear Ho.
+    assert (Hdle : rd + i <= N).
+    { rewrite <- Hli. apply (frun_len_le dsc rd rs rv _ Hrc Hrd). }
+    rewrite Hdepc, Hli in Eh.
+    destruct (H_attained pb nv_static nv_some nv_none (N - (rd + i)) (rd + i) _ (n_vtop (gn m id)) h eq_refl Hdle Eh)
+      as (ds2 & sN & Hr2 & Hl2).
+    assert (Hpc : promC i (n_state (gn m id)) (n_vtop (gn m id)) ds2 sN (n_vtop (gn m id) + h)%Z).
+    { split; [exact Hr2|]. split; [lia|lia]. }
+    assert (Hcv : cov (n_state (gn ml id)) (n_state (gn m id))) by (rewrite a1; apply cov_refl).
+    assert (Hvv : (n_vtop (gn m id) <= n_vtop (gn ml id))%Z) by (rewrite a2; lia).
+    destruct (HUP i id (n_state (gn m id)) (n_vtop (gn m id)) ds2 sN _ Hil HSrc Hcv Hvv HSt Hpc Hen)
+      as (HE & _ & Hlen & _ & u & s' & Hu & Hur & Hpth).
+    assert (HsN : sN = s').
+    { rewrite (frun_state pb _ _ _ _ _ _ Hr2). symmetry. apply (dpath_state _ _ _ _ _ _ _ Hpth). }
+    subst sN.
+    destruct (Hguard (dsc ++ ds2) s' _ ltac:(rewrite frun_app, Hrc, Hli; exact Hr2)) as [Go1 Go2].
+    destruct (locb_from_path tb tb2 ml k i id (n_state (gn m id)) (n_vtop (gn m id)) ds2 u s'
+                (n_vtop (gn m id) + h)%Z Ht HS HX Hlel) as [_ Mv]; auto.
+    { lia. }
+    { intros da db s1 v1 Ed Hr1.
+      destruct (Hguard (dsc ++ da) s1 v1) as [Q1 Q2]; [rewrite frun_app, Hrc, Hli; exact Hr1|].
+      unfold in_isize, IMIN, IMAX in *. lia. }
+    rewrite <- Em in Mv.
+    assert (Hloc : (n_vtop (gn m id) + h <= sat_add (n_vtop (gn m id)) (n_vbot (gn m id)))%Z).
+    { apply sat_add_ge; [unfold in_isize, IMIN, IMAX in *; lia|lia]. }
+    lia.
+  Qed.
+End Sim.
+
+(* ================================================================== 7. the contracts of SolverProofs.v *)
+Require Import DDO.Solver DDO.SolverProofs.
+Local Open Scope nat_scope.
+
+Section KHolds.
+  Context {St : Type}.
+  Variable st_eqb : St -> St -> bool.
+  Hypothesis st_eqb_spec : forall a b, st_eqb a b = true <-> a = b.
+  Variable cfg : @sconfig St.
+  Let pb := sc_problem cfg.
+  Let rlx := sc_relax cfg.
+  Let N := nb_vars pb.
+  Hypothesis cfg_clean : sc_flavour cfg = CleanLEL \/ sc_flavour cfg = CleanFC.
+  Hypothesis cfg_nocache : sc_use_cache cfg = false.
+  Hypothesis cfg_nodom : sc_domrule cfg = None.
+  Hypothesis cfg_nocut : sc_cutoff cfg = 0.
+  Hypothesis cfg_width : 1 <= sc_width cfg.
+  Hypothesis nv_static : forall k l1 l2, next_variable pb k l1 = next_variable pb k l2.
+  Hypothesis nv_some : forall k l, k < N -> exists x, next_variable pb k l = Some x.
+  Hypothesis nv_none : forall k l, N <= k -> next_variable pb k l = None.
+  Variable cov : St -> St -> Prop.
+  Hypothesis cov_refl : forall s, cov s s.
+  Hypothesis cov_sim : forall s s' x v, cov s s' -> In v (domain pb x s') ->
+    let d := {| d_var := x; d_val := v |} in
+    In v (domain pb x s) /\ cov (transition pb s d) (transition pb s' d) /\
+    (transition_cost pb s' (transition pb s' d) d <= transition_cost pb s (transition pb s d) d)%Z.
+  Hypothesis merge_cov : forall L s s', In s L -> cov s s' -> cov (merge rlx L) s'.
+  Hypothesis relax_ge : forall src dst mg d c, (c <= relax rlx src dst mg d c)%Z.
+  Hypothesis rub_adm : forall k s s' h, cov s s' -> H pb k s' = Some h -> (h <= fast_upper_bound rlx s)%Z.
+  (* sub-problems the solver hands to the compiler *)
+  Variable good : @subproblem St -> Prop.
+  Variable B : Z.
+  Hypothesis HB : (2 * B <= IMAX)%Z.
+  Hypothesis good_guard : forall n, good n -> forall ds s' v',
+    frun pb (sp_depth n) (sp_state n) (sp_value n) ds = Some (s', v') -> (- B <= v' <= B)%Z.
+
+  Definition best (n : @subproblem St) : option Z := oadd (sp_value n) (H pb (sp_depth n) (sp_state n)).
+
+  Theorem K2_holds : forall ct n lb c ds polls m out,
+    dd_ct ct -> good n -> sp_depth n <= N ->
+    compile st_eqb (mk_input cfg ct n lb) 0 0 c ds polls = (m, out) -> out = Compiled ->
+    dd_is_exact m = true ->
+    forall o, best n = Some o -> (o > lb)%Z -> dd_best_exact_value (mk_input cfg ct n lb) m = Some o.
+  Proof.
+    intros ct n lb c ds polls m out _ Hg Hd Hc -> Hex o Hb Hlb.
+    apply (S2_exact_truthful st_eqb st_eqb_spec (mk_input cfg ct n lb) cfg_clean cfg_nocache cfg_nodom cfg_nocut
+             cfg_width Hd nv_static nv_some nv_none cov cov_refl cov_sim merge_cov relax_ge rub_adm B HB
+             (good_guard n Hg) 0 0 c ds polls m o Hc Hex Hb Hlb).
+  Qed.
+
+  (* K4 together with the instance of K3_ub that the solver proof uses (the upper bound of the covering node) *)
+  Theorem K4_ub_holds : forall n lb c ds polls m out,
+    good n -> sp_depth n <= N ->
+    compile st_eqb (mk_input cfg Relaxed n lb) 0 0 c ds polls = (m, out) -> out = Compiled ->
+    dd_is_exact m = false ->
+    forall o, best n = Some o -> (o > lb)%Z ->
+    (forall e, dd_best_exact_value (mk_input cfg Relaxed n lb) m = Some e -> (e < o)%Z) ->
+    exists x, In x (drain_cutset (mk_input cfg Relaxed n lb) m) /\ best x = Some o /\ (o <= sp_ub x)%Z.
+  Proof.
+    intros n lb c ds polls m out Hg Hd Hc -> Hex o Hb Hlb Hbe.
+    apply (S4_cutset_covers st_eqb st_eqb_spec (mk_input cfg Relaxed n lb) cfg_clean cfg_nocache cfg_nodom cfg_nocut
+             cfg_width Hd nv_static nv_some nv_none cov cov_refl cov_sim merge_cov relax_ge rub_adm B HB
+             (good_guard n Hg) 0 0 c ds polls m o Hc eq_refl Hex Hb Hlb Hbe).
+  Qed.
+
+  Theorem K4_holds : forall n lb c ds polls m out,
+    good n -> sp_depth n <= N ->
+    compile st_eqb (mk_input cfg Relaxed n lb) 0 0 c ds polls = (m, out) -> out = Compiled ->
+    dd_is_exact m = false ->
+    forall o, best n = Some o -> (o > lb)%Z ->
+    (forall e, dd_best_exact_value (mk_input cfg Relaxed n lb) m = Some e -> (e < o)%Z) ->
+    exists x, In x (drain_cutset (mk_input cfg Relaxed n lb) m) /\ best x = Some o.
+  Proof.
+    intros n lb c ds polls m out Hg Hd Hc Ho Hex o Hb Hlb Hbe.
+    destruct (K4_ub_holds n lb c ds polls m out Hg Hd Hc Ho Hex o Hb Hlb Hbe) as (x & H1 & H2 & _).
+    exists x; auto.
+  Qed.
+
+  Theorem K3_ub_holds : forall n lb c ds polls m out,
+    good n -> sp_depth n <= N ->
+    compile st_eqb (mk_input cfg Relaxed n lb) 0 0 c ds polls = (m, out) -> out = Compiled ->
+    dd_is_exact m = false ->
+    forall x, In x (drain_cutset (mk_input cfg Relaxed n lb) m) ->
+    forall o, best x = Some o -> (o > lb)%Z -> (o <= sp_ub x)%Z.
+  Proof.
+    intros n lb c ds polls m out Hg Hd Hc -> Hex x Hx o Hb Hlb.
+    apply (S3_cutset_ub st_eqb st_eqb_spec (mk_input cfg Relaxed n lb) cfg_clean cfg_nocache cfg_nodom cfg_nocut
+             cfg_width Hd nv_static nv_some nv_none cov cov_refl cov_sim merge_cov relax_ge rub_adm B HB
+             (good_guard n Hg) 0 0 c ds polls m x o Hc eq_refl Hex Hx Hb Hlb).
+  Qed.
+
+  Theorem K3_ub_components : forall n lb c ds polls m out,
+    good n -> sp_depth n <= N ->
+    compile st_eqb (mk_input cfg Relaxed n lb) 0 0 c ds polls = (m, out) -> out = Compiled ->
+    forall x, In x (drain_cutset (mk_input cfg Relaxed n lb) m) ->
+    forall o, best x = Some o -> (o > lb)%Z ->
+    exists id bv, In id (m_cutset m) /\ dd_best_value (mk_input cfg Relaxed n lb) m = Some bv /\
+      sp_ub x = Z.min (Z.min (sat_add (n_vtop (get_node (mk_input cfg Relaxed n lb) m id))
+                                      (n_rub (get_node (mk_input cfg Relaxed n lb) m id)))
+                             (sat_add (n_vtop (get_node (mk_input cfg Relaxed n lb) m id))
+                                      (n_vbot (get_node (mk_input cfg Relaxed n lb) m id)))) bv /\
+      (o <= sat_add (n_vtop (get_node (mk_input cfg Relaxed n lb) m id))
+                    (n_rub (get_node (mk_input cfg Relaxed n lb) m id)))%Z /\ (o <= bv)%Z.
+  Proof.
+    intros n lb c ds polls m out Hg Hd Hc -> x Hx o Hb Hlb.
+    destruct (S3_cutset_ub_components st_eqb st_eqb_spec (mk_input cfg Relaxed n lb) cfg_clean cfg_nocache cfg_nodom cfg_nocut
+             cfg_width Hd nv_static nv_some nv_none cov cov_refl cov_sim merge_cov relax_ge rub_adm B HB
+             (good_guard n Hg) 0 0 c ds polls m x o Hc eq_refl Hx Hb Hlb) as (id & bv & H1 & H2 & H3 & H4 & H5 & _).
+    exists id, bv. auto.
+  Qed.
+End KHolds.
+
+Print Assumptions S1_relaxed_upper_bound.
+Print Assumptions S2_exact_truthful.
+Print Assumptions S2_exact_mode.
+Print Assumptions S4_cutset_covers.
+Print Assumptions S3_cutset_ub_components.
+Print Assumptions S3_cutset_ub.
+Print Assumptions K2_holds.
+Print Assumptions K4_ub_holds.
+Print Assumptions K4_holds.
+Print Assumptions K3_ub_components.
+Print Assumptions K3_ub_holds.
+Print Assumptions vstar_opt_enum.
